@@ -4,7 +4,8 @@
     Drummer's view shows (no membership change in progress); every current member has its data on
     its host (running or NOT - the replicas of a restarted NodeHost are stopped until Drummer asks
     for a restore, they may lag behind); nothing but current members runs; the mailboxes and queues
-    hold nothing but restore requests for current members; the kill list is empty.
+    hold nothing but restore requests for current members, ADD / DELETE requests with a stale fence and
+    KILL requests for non-members ([harmless]); the kill list is empty.
     This is what a [Steady] fleet looks like after ANY number of NodeHost crashes and restarts
     ([calm_bounce]), lost replies, lost reports and lagging replicas.
 
@@ -14,17 +15,30 @@
       - [calm_progress]  a rank (per member: time left until the failure detector fires, restore
                          scheduled, restarted, reported) strictly decreases in every healthy round
                          as long as the fleet is not healed;
-      - [calm_heal]      after ttl / (nticks * step) + 3 healthy rounds the fleet is healed. *)
+      - [calm_heal]      after ttl / (nticks * step) + 3 healthy rounds the fleet is healed ([calm_heal_ge]: and
+                         stays healed);
+      - [calm_round_total] the round never gets stuck.
+    From ANY state of the invariant: [round_no_error] - with a spare NodeHost per shard the scheduler cannot answer
+    errNotEnoughNodeHost in a healthy round; [error_cause] - what that error means. *)
 From stdpp Require Import gmap list numbers sorting.
 From Coq Require Import ZifyN ZifyNat ZifyBool Lia.
-From Drummer.Model Require Import DB Sched Fleet FleetRun MailboxSpec.
-From Drummer.Proofs Require Import DBProofs DBViewProofs DBTimeProofs SchedProofs MailboxProofs FleetProofs FleetLiveProofs.
+From Drummer.Model Require Import DB Sched Fleet FleetRun MailboxSpec FleetRounds.
+From Drummer.Proofs Require Import DBProofs DBViewProofs DBTimeProofs SchedProofs SchedTotal MailboxProofs FleetProofs FleetLiveProofs.
 Local Open Scope N_scope.
 Notation hist_of := Fleet.hist_of.
 
 (** * the class of states *)
 Definition good_restore (hist : gmap N (list hentry)) (q : request) : Prop :=
   is_restore q = true ∧ q_join q = false ∧ ∃ h a, hist !! q_shard q = Some h ∧ cur_members h !! q_inst q = Some a.
+
+(* requests that do nothing to a calm fleet except (re)starting a stopped member: restore requests for current
+   members, ADD / DELETE requests whose fence is not the current membership version (leftovers of completed
+   repairs), KILL requests (for replica ids that are not current members) *)
+Definition harmless (hist : gmap N (list hentry)) (q : request) : Prop :=
+  good_restore hist q ∨
+  (is_change q = true ∧ q_ccid q ≠ cur_version (hist_of hist (q_shard q)) ∧ q_members q ≠ [] ∧
+     (is_add q = true → q_addrs q ≠ [])) ∨
+  (is_kill q = true ∧ ∃ y, q_members q = [y] ∧ ∀ h, hist !! q_shard q = Some h → is_member (cur_members h) y = false).
 
 Record Calm (st : fstate) : Prop := mkCalm {
   cm_inv : LoopInv st;
@@ -34,7 +48,7 @@ Record Calm (st : fstate) : Prop := mkCalm {
   cm_viewdef : ∀ s, is_Some (d_view (f_db st) !! s) → is_Some (d_shards (f_db st) !! s) ∧ is_Some (f_hist st !! s);
   cm_hosts : ∀ a fh, f_hosts st !! a = Some fh → fh_up fh = true ∧ fh_out fh = None;
   cm_kill : d_kill (f_db st) = [];
-  cm_boxes : ∀ q, boxed st q → good_restore (f_hist st) q;
+  cm_boxes : ∀ q, boxed st q → harmless (f_hist st) q;
   cm_members : ∀ s h, f_hist st !! s = Some h →
     ∃ c, d_view (f_db st) !! s = Some c ∧ s_cci c = cur_version h ∧
          ∀ rid a, cur_members h !! rid = Some a →
@@ -278,23 +292,56 @@ Proof.
         rewrite lookup_insert, Hup. done.
 Qed.
 
+(* the other harmless requests change nothing *)
+Lemma exec_harmless sz hist h q x :
+  hists_wf sz hist → x.2 = hist → HCalm hist x.1 → harmless hist q → is_Some (x.1 !! h) →
+  ∃ x', exec_req h true x q = Some x' ∧ x'.2 = hist ∧ HCalm hist x'.1 ∧ evolves x.1 x'.1 ∧
+        ∀ fh, is_restore q = true → x.1 !! h = Some fh → is_Some (fh_reps fh !! (q_shard q, q_inst q)) →
+              member_running x'.1 (q_shard q) (q_inst q) h = true.
+Proof.
+  intros Hwf Hx2 HH Hq [fh Hfh]. destruct Hq as [Hg|[(Hch & Hfence & Hmem & Haddr)|(Hk & y & Hy & Hdead)]].
+  - destruct (exec_restore sz hist h q x Hwf Hx2 HH Hg) as (x' & E & H1 & H2 & H3 & H4); [by eexists|].
+    exists x'. repeat (split; [done|]). intros fh0 _. apply H4.
+  - (* ADD / DELETE with a stale fence *)
+    assert (Hnop : exec_req h true x q = Some x).
+    { unfold exec_req. rewrite Hfh. unfold is_change, is_add, is_delete in Hch, Haddr.
+      destruct (q_type q) eqn:Et; try done.
+      - destruct (q_members q) as [|rid ms]; [done|]. f_equal. unfold hist_of in *. rewrite Hx2.
+        destruct (default [] (hist !! q_shard q)) as [|e hs]; [done|]. cbn [cur_version] in Hfence.
+        unfold cc_ready. assert ((q_ccid q =? e.1) = false) as -> by (by apply N.eqb_neq). by rewrite !andb_false_r.
+      - destruct (q_members q) as [|rid ms]; [done|]. destruct (q_addrs q) as [|t ts]; [by destruct Haddr|]. f_equal.
+        unfold hist_of in *. rewrite Hx2.
+        destruct (default [] (hist !! q_shard q)) as [|e hs]; [done|]. cbn [cur_version] in Hfence.
+        unfold cc_ready. assert ((q_ccid q =? e.1) = false) as -> by (by apply N.eqb_neq). by rewrite !andb_false_r. }
+    exists x. split; [done|]. split; [done|]. split; [done|]. split; [apply evolves_refl|].
+    intros fh0 Hres. unfold is_restore, is_create in Hres. unfold is_change, is_add, is_delete in Hch. by destruct (q_type q).
+  - (* KILL of a replica that is not a current member: it does not run *)
+    assert (Hnop : exec_req h true x q = Some x).
+    { unfold exec_req. rewrite Hfh. unfold is_kill in Hk. destruct (q_type q); try done. rewrite Hy. f_equal.
+      destruct (fh_reps fh !! (q_shard q, y)) as [lr|] eqn:Ek; [|done]. destruct (lr_running lr) eqn:Er; [|done]. exfalso.
+      destruct (hc_nostray _ _ HH h fh (q_shard q) y lr Hfh Ek Er) as (h0 & Hh0 & Hm). apply is_member_true in Hm.
+      rewrite (Hdead h0 Hh0) in Hm. done. }
+    exists x. split; [done|]. split; [done|]. split; [done|]. split; [apply evolves_refl|].
+    intros fh0 Hres. unfold is_restore, is_create in Hres. unfold is_kill in Hk. by destruct (q_type q).
+Qed.
+
 Lemma exec_restores sz hist h qs : ∀ x,
-  hists_wf sz hist → x.2 = hist → HCalm hist x.1 → Forall (good_restore hist) qs → is_Some (x.1 !! h) →
+  hists_wf sz hist → x.2 = hist → HCalm hist x.1 → Forall (harmless hist) qs → is_Some (x.1 !! h) →
   ∃ x', exec_all h true x qs = Some x' ∧ x'.2 = hist ∧ HCalm hist x'.1 ∧ evolves x.1 x'.1 ∧
-        ∀ q fh, q ∈ qs → x.1 !! h = Some fh → is_Some (fh_reps fh !! (q_shard q, q_inst q)) →
+        ∀ q fh, q ∈ qs → is_restore q = true → x.1 !! h = Some fh → is_Some (fh_reps fh !! (q_shard q, q_inst q)) →
                 member_running x'.1 (q_shard q) (q_inst q) h = true.
 Proof.
   induction qs as [|q qs IH]; intros x Hwf Hx2 HH Hgood Hh.
   { exists x. cbn. split; [done|]. split; [done|]. split; [done|]. split; [apply evolves_refl|].
     intros q fh Hin. by apply elem_of_nil in Hin. }
   apply Forall_cons_1 in Hgood as [Hg Hgood].
-  destruct (exec_restore sz hist h q x Hwf Hx2 HH Hg Hh) as (x1 & E1 & Hx1 & HH1 & Hev1 & Heff1).
+  destruct (exec_harmless sz hist h q x Hwf Hx2 HH Hg Hh) as (x1 & E1 & Hx1 & HH1 & Hev1 & Heff1).
   assert (Hh1 : is_Some (x1.1 !! h)).
   { destruct Hh as [fh Hfh]. pose proof (Hev1 h) as He. rewrite Hfh in He. destruct He as (fh' & -> & _). by eexists. }
   destruct (IH x1 Hwf Hx1 HH1 Hgood Hh1) as (x2 & E2 & Hx2' & HH2 & Hev2 & Heff2).
   exists x2. cbn [exec_all]. rewrite E1. split; [done|]. split; [done|]. split; [done|].
   split; [by eapply evolves_trans|].
-  intros q0 fh Hin Hfh Hk. apply elem_of_cons in Hin as [->|Hin].
+  intros q0 fh Hin Hres Hfh Hk. apply elem_of_cons in Hin as [->|Hin].
   - eapply evolves_running; [exact Hev2|]. by eapply Heff1.
   - destruct (evolves_data _ _ h fh _ Hev1 Hfh Hk) as (fh1 & Hfh1 & Hk1). by eapply Heff2.
 Qed.
@@ -334,6 +381,45 @@ Proof.
   destruct He as (fh' & -> & -> & _ & Hr). specialize (Hr (s, rid)).
   destruct (fh_reps fh !! (s, rid)) as [lr|]; [|by rewrite Hr]. destruct Hr as (lr' & -> & ->). done.
 Qed.
+
+(* the same hosts hold the same data *)
+Definition same_data (hosts hosts' : gmap N fhost) : Prop :=
+  ∀ a, match hosts !! a with
+       | Some fh => ∃ fh', hosts' !! a = Some fh' ∧ ∀ k, is_Some (fh_reps fh !! k) ↔ is_Some (fh_reps fh' !! k)
+       | None => hosts' !! a = None
+       end.
+
+Lemma same_data_refl hosts : same_data hosts hosts.
+Proof. intros a. destruct (hosts !! a) as [fh|]; [|done]. by exists fh. Qed.
+
+Lemma same_data_trans h1 h2 h3 : same_data h1 h2 → same_data h2 h3 → same_data h1 h3.
+Proof.
+  intros H12 H23 a. specialize (H12 a). specialize (H23 a). destruct (h1 !! a) as [fh1|].
+  - destruct H12 as (fh2 & E2 & R2). rewrite E2 in H23. destruct H23 as (fh3 & E3 & R3).
+    exists fh3. split; [done|]. intros k. by rewrite R2, R3.
+  - by rewrite H12 in H23.
+Qed.
+
+Lemma evolves_same_data hosts hosts' : evolves hosts hosts' → same_data hosts hosts'.
+Proof.
+  intros He a. specialize (He a). destruct (hosts !! a) as [fh|]; [|done].
+  destruct He as (fh' & E & _ & _ & _ & Hr). exists fh'. split; [done|]. intros k. specialize (Hr k).
+  destruct (fh_reps fh !! k) as [lr|].
+  - destruct Hr as (lr' & -> & _). split; by eexists.
+  - rewrite Hr. done.
+Qed.
+
+Lemma same_run_same_data hosts hosts' : same_run hosts hosts' → same_data hosts hosts'.
+Proof.
+  intros He a. specialize (He a). destruct (hosts !! a) as [fh|]; [|done].
+  destruct He as (fh' & E & _ & _ & Hr). exists fh'. split; [done|]. intros k. specialize (Hr k).
+  destruct (fh_reps fh !! k) as [lr|].
+  - destruct Hr as (lr' & -> & _). split; by eexists.
+  - rewrite Hr. done.
+Qed.
+
+Lemma host_addrs_nodup st : NoDup (host_addrs st).
+Proof. unfold host_addrs. rewrite merge_sort_Permutation. apply NoDup_fst_map_to_list. Qed.
 
 (** * one host reports *)
 Section Heal.
@@ -622,7 +708,7 @@ Lemma calm_exec st a fh :
   ∃ st', fstep P st (EExec a true) = FOk st' ∧ Calm st' ∧
     f_db st' = f_db st ∧ f_hist st' = f_hist st ∧ f_seen st' = f_seen st ∧
     evolves (<[a := unq fh]> (f_hosts st)) (f_hosts st') ∧
-    ∀ q, q ∈ fh_queue fh → is_Some (fh_reps fh !! (q_shard q, q_inst q)) →
+    ∀ q, q ∈ fh_queue fh → is_restore q = true → is_Some (fh_reps fh !! (q_shard q, q_inst q)) →
          member_running (f_hosts st') (q_shard q) (q_inst q) a = true.
 Proof.
   intros HC Ha. pose proof (cm_inv _ HC) as HI. destruct (cm_hosts _ HC _ _ Ha) as [Hup Hout].
@@ -642,7 +728,7 @@ Proof.
     - intros b fhb s rid lr. unfold hosts0. destruct (decide (b = a)) as [->|Hne].
       + rewrite lookup_insert. intros [= <-]. cbn [unq fh_reps]. by apply (hc_nostray _ _ HH a fh).
       + rewrite lookup_insert_ne by done. apply (hc_nostray _ _ HH). }
-  assert (Hgood : Forall (good_restore (f_hist st)) (fh_queue fh)).
+  assert (Hgood : Forall (harmless (f_hist st)) (fh_queue fh)).
   { apply Forall_forall. intros q Hq. apply (cm_boxes _ HC). right; right; left. eauto. }
   destruct (exec_restores (shard_size (f_db st)) (f_hist st) a (fh_queue fh) (hosts0, f_hist st)
               (li_hist _ _ _ _ _ HI) eq_refl HH0 Hgood) as (x' & Ex & Hx2 & HH' & Hev & Heff).
@@ -664,7 +750,7 @@ Proof.
     - rewrite lookup_insert in E0. injection E0 as <-. by apply elem_of_nil in Hin.
     - rewrite lookup_insert_ne in E0 by done. right; right; left. eauto. }
   split; [done|]. split; [done|]. split; [done|]. split; [exact Hev|].
-  intros q Hq Hk. apply (Heff q (unq fh) Hq); [unfold hosts0; by rewrite lookup_insert|exact Hk].
+  intros q Hq Hres Hk. apply (Heff q (unq fh) Hq Hres); [unfold hosts0; by rewrite lookup_insert|exact Hk].
 Qed.
 
 Lemma calm_execs (l : list N) : ∀ st,
@@ -673,15 +759,16 @@ Lemma calm_execs (l : list N) : ∀ st,
     f_db st' = f_db st ∧ f_hist st' = f_hist st ∧ f_seen st' = f_seen st ∧
     (∀ a fh', a ∈ l → f_hosts st' !! a = Some fh' → fh_queue fh' = []) ∧
     (∀ a fh, a ∉ l → f_hosts st !! a = Some fh → ∃ fh', f_hosts st' !! a = Some fh' ∧ fh_queue fh' = fh_queue fh) ∧
-    (∀ a fh, f_hosts st !! a = Some fh → ∃ fh', f_hosts st' !! a = Some fh' ∧ ∀ k, is_Some (fh_reps fh !! k) → is_Some (fh_reps fh' !! k)) ∧
+    same_data (f_hosts st) (f_hosts st') ∧
     (∀ a s rid, member_running (f_hosts st) s rid a = true → member_running (f_hosts st') s rid a = true) ∧
-    (∀ a fh q, a ∈ l → f_hosts st !! a = Some fh → q ∈ fh_queue fh → is_Some (fh_reps fh !! (q_shard q, q_inst q)) →
+    (∀ a fh q, a ∈ l → f_hosts st !! a = Some fh → q ∈ fh_queue fh → is_restore q = true →
+       is_Some (fh_reps fh !! (q_shard q, q_inst q)) →
        member_running (f_hosts st') (q_shard q) (q_inst q) a = true).
 Proof.
   induction l as [|a l IH]; intros st HC Hnd Hl.
   { exists st. cbn. split; [done|]. split; [done|]. repeat (split; [done|]).
     split; [intros a fh' Hin; by apply elem_of_nil in Hin|]. split; [intros a fh _ Hfh; by exists fh|].
-    split; [intros a fh Hfh; by exists fh|]. split; [done|]. intros a fh q Hin. by apply elem_of_nil in Hin. }
+    split; [apply same_data_refl|]. split; [done|]. intros a fh q Hin. by apply elem_of_nil in Hin. }
   apply NoDup_cons in Hnd as [Hnotin Hnd]. destruct (Hl a) as [fh Ha]; [left|].
   destruct (calm_exec st a fh HC Ha) as (st1 & E1 & HC1 & Hd1 & Hh1 & Hs1 & Hev1 & Heff1).
   (* what one execution does to the hosts *)
@@ -712,14 +799,16 @@ Proof.
     destruct (Hhost1 b fhb Hb) as (fhb1 & Hfhb1 & Hq1 & _). rewrite decide_False in Hq1 by done.
     destruct (Hnq2 b fhb1 Hnin Hfhb1) as (fhb2 & Hfhb2 & Hq2'). exists fhb2. split; [done|]. congruence. }
   split.
-  { intros b fhb Hb. destruct (Hhost1 b fhb Hb) as (fhb1 & Hfhb1 & _ & Hk1).
-    destruct (Hdata2 b fhb1 Hfhb1) as (fhb2 & Hfhb2 & Hk2). exists fhb2. split; [done|]. auto. }
+  { eapply same_data_trans; [|exact Hdata2]. apply evolves_same_data in Hev1. intros b. specialize (Hev1 b).
+    destruct (decide (b = a)) as [->|Hne].
+    - rewrite lookup_insert in Hev1. rewrite Ha. exact Hev1.
+    - by rewrite lookup_insert_ne in Hev1. }
   split; [auto|].
-  intros b fhb q Hin Hb Hq Hk. apply elem_of_cons in Hin as [->|Hin].
+  intros b fhb q Hin Hb Hq Hres Hk. apply elem_of_cons in Hin as [->|Hin].
   - assert (fhb = fh) as -> by congruence. apply Hmono2. by apply Heff1.
   - assert (b ≠ a) as Hne by (intros ->; done).
     destruct (Hhost1 b fhb Hb) as (fhb1 & Hfhb1 & Hq1 & Hk1). rewrite decide_False in Hq1 by done.
-    apply (Heff2 b fhb1 q Hin Hfhb1); [by rewrite Hq1|by apply Hk1].
+    apply (Heff2 b fhb1 q Hin Hfhb1); [by rewrite Hq1|done|by apply Hk1].
 Qed.
 
 (** * Raft catches up *)
@@ -860,7 +949,7 @@ Proof.
   assert (Hmv : ∀ n, n ∈ mvals (s_reps c) → r_id n ≠ 0 ∧ r_addr n ≠ 0 ∧ r_shard n = s_id c ∧ cur_members h !! r_id n = Some (r_addr n) ∧
              ∃ fh lr, f_hosts st !! r_addr n = Some fh ∧ fh_reps fh !! (s_id c, r_id n) = Some lr).
   { intros n Hn. apply mvals_elem in Hn as [rid Hn]. destruct (Hids rid n Hn) as [-> Hsh].
-    assert (Hm : cur_members h !! r_id n = Some (r_addr n)) by (rewrite <- HM, lookup_fmap, Hn; done).
+    assert (Hm : cur_members h !! rid = Some (r_addr n)) by (rewrite <- HM, lookup_fmap, Hn; done).
     destruct (Hmem _ _ Hm) as (? & ? & ?). done. }
   assert (Hwait : sr_wait P C c = []).
   { apply elem_of_nil_inv. intros n Hn. apply elem_sr_wait in Hn as [Hn Hw]. apply mvals_elem in Hn as [rid Hn].
@@ -878,8 +967,8 @@ Proof.
   { unfold restore_set. rewrite Hrest. destruct (need_restore P C c); [|done].
     case_bool_decide as Hq; [done|]. destruct (sr_failed P C c) as [|n0 l0] eqn:Ef; [done|]. exfalso. apply Hq.
     rewrite sr_quorum_eq. pose proof (sr_partition P C c) as Hp. unfold n_wait in Hp. rewrite Hwait in Hp. cbn [length] in Hp.
-    unfold n_failed in Hp. rewrite Ef in Hp. rewrite <- Ef in Hp. unfold n_ok in *. unfold quorum_of.
-    assert (0 < size (s_reps c))%nat by (rewrite Ef in Hp; cbn [length] in Hp; lia).
+    unfold n_failed, n_ok in Hp. rewrite Ef in Hp. unfold n_ok, quorum_of.
+    assert (0 < size (s_reps c))%nat by (cbn [length] in Hp; lia).
     pose proof (Nat.div_lt (size (s_reps c)) 2 ltac:(lia) ltac:(lia)). lia. }
   exists h, sd. split; [done|]. split; [done|]. split; [done|]. split; [done|]. split; [done|].
   split. { intros n Hn. destruct (Hmv n Hn) as (? & ? & ? & ? & _). done. }
@@ -887,21 +976,18 @@ Proof.
   unfold repair_action. destruct (sr_failed P C c) as [|n0 l0] eqn:Ef.
   - assert (in_repair P C c = false) as ->; [|done]. unfold in_repair, n_failed, n_wait. rewrite Ef, Hwait. done.
   - assert (is_restored P C c = true) as ->; [|by rewrite orb_true_r].
-    apply has_restore_restored; [done|]. unfold has_restore. rewrite Hrs, Ef. done.
+    apply has_restore_restored; [done|]. unfold has_restore. rewrite Hrs. done.
 Qed.
 
-Lemma calm_schedule st t o st' :
-  Calm st → fresh_hosts st t → fstep P st (ESchedule o) = FOk st' →
-  ∃ b, o = OBatch b ∧ Calm st' ∧
-    f_hosts st' = f_hosts st ∧ f_hist st' = f_hist st ∧
-    f_db st' = set_requests (f_db st) (put_requests (d_requests (f_db st)) b) ∧
+Lemma calm_allowed st t o :
+  Calm st → fresh_hosts st t → allowed P (ctx_of_db (f_db st)) o = true →
+  ∃ b, o = OBatch b ∧ add_ids b = [] ∧
     (∀ q, q ∈ b → good_restore (f_hist st) q) ∧
     (∀ s c rid n, d_view (f_db st) !! s = Some c → s_reps c !! rid = Some n →
        replica_failed P n (d_tick (f_db st)) = true →
        ∃ q, q ∈ b ∧ is_restore q = true ∧ q_shard q = s ∧ q_inst q = rid ∧ q_raft q = r_addr n).
 Proof.
-  intros HC Hfr E. pose proof (cm_inv _ HC) as HI. set (C := ctx_of_db (f_db st)).
-  cbn [fstep] in E. destruct (allowed P (ctx_of_db (f_db st)) o) eqn:Hal; [|done]. fold C in Hal.
+  intros HC Hfr Hal. pose proof (cm_inv _ HC) as HI. set (C := ctx_of_db (f_db st)) in *.
   assert (Hkills : kills C = []) by (unfold kills, C, ctx_of_db; cbn [c_kill]; by rewrite (cm_kill _ HC)).
   (* no error, no panic *)
   assert (Hb : ∃ b, o = OBatch b).
@@ -937,10 +1023,35 @@ Proof.
     destruct (restore_group_inv P C c _ qs q Hok Hin) as ((Hcr & Hsh & _ & _ & _ & _ & Hj & Hre & _) & n & Hn & Hi & _).
     rewrite Hrs in Hn. apply elem_sr_failed in Hn as [Hn _]. destruct (Hmv n Hn) as (_ & _ & _ & Hm).
     split; [unfold is_restore; by rewrite Hcr, Hre|]. split; [done|]. exists h, (r_addr n). rewrite Hsh, Hi. done. }
-  assert (Hadds : add_ids b = []).
+  split.
   { unfold add_ids. assert (filter (λ q, is_add q = true) b = []) as ->; [|done].
     apply elem_of_nil_inv. intros q Hq. apply elem_of_list_filter in Hq as [Hadd Hq].
     destruct (Hgood q Hq) as (Hres & _). unfold is_restore, is_create in Hres. unfold is_add in Hadd. by destruct (q_type q). }
+  split; [exact Hgood|].
+  intros s c rid n Hc Hn Hfail.
+  assert (Hce : c ∈ entries C) by (unfold entries, C, ctx_of_db; cbn [c_view]; apply mvals_elem; by exists s).
+  destruct (ready_entry st t c HC Hfr Hce) as (h & sd & Hh & Hvc & _ & _ & _ & _ & Hrs & _). fold C in Hrs.
+  destruct (li_view _ _ _ _ _ HI s c Hc) as (Hid & _ & Hids). destruct (Hids rid n Hn) as [Hrid _].
+  assert (Hnf : n ∈ restore_set P C c).
+  { rewrite Hrs. apply elem_sr_failed. split; [apply mvals_elem; by exists rid|]. exact Hfail. }
+  destruct (sched_restore_complete P C b c n Hal Hce Hnf) as (q & Hq & Hres & Hs & Hi & Hr).
+  exists q. split; [done|]. split; [done|]. split; [congruence|]. split; [congruence|done].
+Qed.
+
+Lemma calm_schedule st t o st' :
+  Calm st → fresh_hosts st t → fstep P st (ESchedule o) = FOk st' →
+  ∃ b, o = OBatch b ∧ Calm st' ∧
+    f_hosts st' = f_hosts st ∧ f_hist st' = f_hist st ∧
+    f_db st' = set_requests (f_db st) (put_requests (d_requests (f_db st)) b) ∧
+    (∀ q, q ∈ b → good_restore (f_hist st) q) ∧
+    (∀ s c rid n, d_view (f_db st) !! s = Some c → s_reps c !! rid = Some n →
+       replica_failed P n (d_tick (f_db st)) = true →
+       ∃ q, q ∈ b ∧ is_restore q = true ∧ q_shard q = s ∧ q_inst q = rid ∧ q_raft q = r_addr n).
+Proof.
+  intros HC Hfr E. pose proof (cm_inv _ HC) as HI. set (C := ctx_of_db (f_db st)).
+  cbn [fstep] in E. destruct (allowed P (ctx_of_db (f_db st)) o) eqn:Hal; [|done].
+  destruct (calm_allowed st t o HC Hfr Hal) as (b & -> & Hadds & Hgood & Hcomplete). fold C in Hal.
+  exists b. split; [done|].
   assert (Hfresh : fresh_ok st (ESchedule (OBatch b))).
   { cbn. rewrite Hadds. split; [constructor|]. intros x Hx. by apply elem_of_nil in Hx. }
   assert (E' : fstep P st (ESchedule (OBatch b)) = FOk st') by (cbn [fstep]; fold C; by rewrite Hal).
@@ -956,7 +1067,7 @@ Proof.
   split.
   { split; try rewrite Ed; try rewrite Eh; try rewrite Ehi; cbn [set_requests d_tick d_shards d_view d_kill].
     - exact HI'.
-    - exact Hto.
+    - rewrite Ed in Hto. exact Hto.
     - apply (cm_time _ HC).
     - apply (cm_defined _ HC).
     - apply (cm_viewdef _ HC).
@@ -966,7 +1077,7 @@ Proof.
       destruct Hq as [(a & qs & Hl & Hin)|[Hq|[Hq|Hq]]].
       + cbn [d_requests set_requests] in Hl. destruct (put_requests_in _ _ _ _ Hl) as [Ho|Ho].
         * apply (cm_boxes _ HC). left. eauto.
-        * apply Hgood. by apply Ho.
+        * left. apply Hgood. by apply Ho.
       + apply (cm_boxes _ HC). right; left. exact Hq.
       + apply (cm_boxes _ HC). right; right; left. exact Hq.
       + by apply elem_of_nil in Hq.
@@ -974,14 +1085,863 @@ Proof.
     - apply (cm_stamped _ HC).
     - apply (cm_home _ HC).
     - apply (cm_nostray _ HC). }
-  split; [done|]. split; [done|]. split; [done|]. split; [exact Hgood|].
+  split; [done|]. split; [done|]. split; [done|]. split; [exact Hgood|]. exact Hcomplete.
+Qed.
+
+(** * one healthy round *)
+Lemma calm_running st s rid a fh : Calm st → f_hosts st !! a = Some fh → member_running (f_hosts st) s rid a = runs_on fh s rid.
+Proof. intros HC Ha. unfold member_running, runs_on. rewrite Ha. destruct (cm_hosts _ HC _ _ Ha) as [-> _]. done. Qed.
+
+Lemma calm_round st st' plogs nticks o :
+  Calm st → (∀ a, plogs a = true) → N.of_nat nticks * p_step P ≤ p_ttl P →
+  healthy_round P plogs nticks o st = Some st' →
+  ∃ b, o = OBatch b ∧ Calm st' ∧ f_hist st' = f_hist st ∧
+    d_tick (f_db st') = d_tick (f_db st) + N.of_nat nticks * p_step P ∧
+    d_shards (f_db st') = d_shards (f_db st) ∧
+    (∀ a fh, f_hosts st' !! a = Some fh → fh_queue fh = []) ∧
+    same_data (f_hosts st) (f_hosts st') ∧
+    (∀ a s rid, member_running (f_hosts st) s rid a = true → member_running (f_hosts st') s rid a = true) ∧
+    (∀ a fh q, f_hosts st !! a = Some fh → (q ∈ fh_queue fh ∨ ∃ qs, d_requests (f_db st) !! a = Some qs ∧ q ∈ qs) →
+        is_restore q = true →
+        is_Some (fh_reps fh !! (q_shard q, q_inst q)) → member_running (f_hosts st') (q_shard q) (q_inst q) a = true) ∧
+    (∀ s, shard_core <$> d_view (f_db st') !! s = shard_core <$> d_view (f_db st) !! s) ∧
+    (∀ s rid n', rec_of (d_view (f_db st')) s rid = Some n' →
+       ∃ n, rec_of (d_view (f_db st)) s rid = Some n ∧
+         (((∃ a, member_running (f_hosts st) s rid a = true) ∧ r_tick n' = d_tick (f_db st)) ∨
+          ((∀ a, member_running (f_hosts st) s rid a = false) ∧ r_tick n' = r_tick n))) ∧
+    (∀ s c rid n, d_view (f_db st') !! s = Some c → s_reps c !! rid = Some n →
+       replica_failed P n (d_tick (f_db st')) = true →
+       ∃ qs q, d_requests (f_db st') !! r_addr n = Some qs ∧ q ∈ qs ∧ is_restore q = true ∧ q_shard q = s ∧ q_inst q = rid).
+Proof.
+  intros HC Hpl Httl. unfold healthy_round. set (t := d_tick (f_db st)).
+  destruct (calm_reports plogs (host_addrs st) st HC (host_addrs_nodup st)) as
+    (st1 & E1 & HC1 & Hhi1 & Hse1 & Ht1 & Hsh1 & Hrq1 & _ & Hho1 & Hho1' & Hco1 & Htk1 & Hsp1 & _).
+  { intros a. apply host_addrs_elem. }
+  rewrite E1.
+  assert (Hdom1 : ∀ a, is_Some (f_hosts st1 !! a) ↔ is_Some (f_hosts st !! a)).
+  { intros a. destruct (f_hosts st !! a) as [fh|] eqn:Ha.
+    - rewrite (Hho1 a fh) by (try apply host_addrs_elem; by eauto). split; by eexists.
+    - rewrite Hho1', Ha; [done|]. intros Hin. apply host_addrs_elem in Hin. rewrite Ha in Hin. by destruct Hin. }
+  destruct (calm_execs (host_addrs st1) st1 HC1 (host_addrs_nodup st1)) as
+    (st2 & E2 & HC2 & Hd2 & Hhi2 & Hse2 & Hq2 & _ & Hsd2 & Hmono2 & Heff2).
+  { intros a. apply host_addrs_elem. }
+  rewrite E2.
+  destruct (calm_learns (catch_up_events st2) st2 HC2 (catch_up_members st2)) as (st3 & E3 & HC3 & Hd3 & Hhi3 & Hse3 & Hsr3).
+  rewrite E3.
+  destruct (calm_ticks nticks st3 HC3) as (st4 & E4 & HC4 & Hd4 & Hho4 & Hhi4 & Hse4). rewrite E4.
+  destruct (fstep P st4 (ESchedule o)) as [st5| |] eqn:E5; try done. intros [= <-].
+  (* the data on the hosts did not change *)
+  assert (Hsd1 : same_data (f_hosts st) (f_hosts st1)).
+  { intros a. destruct (f_hosts st !! a) as [fh|] eqn:Ha.
+    - exists (delivered st a fh). split; [|done]. apply Hho1; [|done]. apply host_addrs_elem. by eexists.
+    - rewrite Hho1', Ha; [done|]. intros Hin. apply host_addrs_elem in Hin. rewrite Ha in Hin. by destruct Hin. }
+  assert (Hsd4 : same_data (f_hosts st) (f_hosts st4)).
+  { rewrite Hho4. eapply same_data_trans; [exact Hsd1|]. eapply same_data_trans; [exact Hsd2|]. by apply same_run_same_data. }
+  assert (Hdb4 : d_view (f_db st4) = d_view (f_db st1) ∧ d_hosts (f_db st4) = d_hosts (f_db st1) ∧
+                 d_shards (f_db st4) = d_shards (f_db st1) ∧ d_requests (f_db st4) = d_requests (f_db st1) ∧
+                 d_tick (f_db st4) = t + N.of_nat nticks * p_step P).
+  { rewrite Hd4, Hd3, Hd2. cbn [set_tick d_view d_hosts d_shards d_requests d_tick]. rewrite Ht1. done. }
+  destruct Hdb4 as (Ev4 & Eh4 & Es4 & Er4 & Et4).
+  assert (Hfr : fresh_hosts st4 t).
+  { split; [rewrite Et4; lia|]. intros a fh4 Ha4. pose proof (Hsd4 a) as Hx.
+    destruct (f_hosts st !! a) as [fh|] eqn:Ha; [|congruence]. destruct Hx as (fh4' & Hfh4' & Hkeys). assert (fh4' = fh4) as -> by congruence.
+    destruct (Hsp1 a fh) as (h & Hh & Htk & Hplog); [apply host_addrs_elem; by eexists|done|].
+    exists h. rewrite Eh4. split; [done|]. split; [done|]. intros k Hk. apply Hplog; [apply Hpl|]. by apply Hkeys. }
+  destruct (calm_schedule st4 t o st5 HC4 Hfr E5) as (b & -> & HC5 & Hho5 & Hhi5 & Hd5 & Hgood & Hsched).
+  exists b. split; [done|]. split; [done|]. split; [congruence|].
+  split; [rewrite Hd5; cbn [set_requests d_tick]; exact Et4|].
+  split; [rewrite Hd5; cbn [set_requests d_shards]; congruence|].
+  assert (Hrun3 : ∀ s rid a, member_running (f_hosts st5) s rid a = member_running (f_hosts st2) s rid a).
+  { intros s rid a. rewrite Hho5, Hho4. by apply same_run_running. }
+  split.
+  { intros a fh5 Ha5. rewrite Hho5, Hho4 in Ha5. pose proof (Hsr3 a) as Hx.
+    destruct (f_hosts st2 !! a) as [fh2|] eqn:Ha2; [|congruence]. destruct Hx as (fh3 & Hfh3 & _ & Hq3 & _).
+    assert (fh3 = fh5) as -> by congruence. rewrite Hq3. apply (Hq2 a fh2); [|done]. apply host_addrs_elem.
+    pose proof (Hsd2 a) as Hy. destruct (f_hosts st1 !! a); [by eexists|congruence]. }
+  split; [by rewrite Hho5|].
+  assert (Hrun1 : ∀ s rid a, member_running (f_hosts st1) s rid a = member_running (f_hosts st) s rid a).
+  { intros s rid a. unfold member_running. destruct (f_hosts st !! a) as [fh|] eqn:Ha.
+    - rewrite (Hho1 a fh) by (try apply host_addrs_elem; by eauto). cbn. by destruct (cm_hosts _ HC _ _ Ha) as [-> _].
+    - rewrite Hho1', Ha; [done|]. intros Hin. apply host_addrs_elem in Hin. rewrite Ha in Hin. by destruct Hin. }
+  split.
+  { intros a s rid Hrun. rewrite Hrun3. apply Hmono2. by rewrite Hrun1. }
+  split.
+  { intros a fh q Ha Hq Hres Hk. rewrite Hrun3.
+    assert (Ha1 : f_hosts st1 !! a = Some (delivered st a fh)) by (apply Hho1; [apply host_addrs_elem; by eexists|done]).
+    apply (Heff2 a (delivered st a fh) q); [apply host_addrs_elem; by eexists|done| |done|done].
+    cbn [delivered fh_queue]. apply elem_of_app. destruct Hq as [Hq|(qs & Hqs & Hq)]; [by left|right]. by rewrite Hqs. }
+  assert (Ev5 : d_view (f_db st5) = d_view (f_db st1)) by (rewrite Hd5; cbn [set_requests d_view]; exact Ev4).
+  split; [by rewrite Ev5|].
+  split.
+  { intros s rid n' Hrec. rewrite Ev5 in Hrec. destruct (Htk1 s rid n' Hrec) as (n & Hn & Hcase). exists n. split; [done|].
+    destruct Hcase as [[(a & fh & _ & Ha & Hr) Htick]|[Hnone Htick]].
+    - left. split; [|done]. exists a. by rewrite (calm_running st s rid a fh HC Ha).
+    - right. split; [|done]. intros a. destruct (f_hosts st !! a) as [fh|] eqn:Ha.
+      + rewrite (calm_running st s rid a fh HC Ha). apply (Hnone a fh); [|done]. apply host_addrs_elem. by eexists.
+      + unfold member_running. by rewrite Ha. }
   intros s c rid n Hc Hn Hfail.
-  assert (Hce : c ∈ entries C) by (unfold entries, C, ctx_of_db; cbn [c_view]; apply mvals_elem; by exists s).
-  destruct (ready_entry st t c HC Hfr Hce) as (h & sd & Hh & Hvc & _ & _ & _ & _ & Hrs & _). fold C in Hrs.
-  destruct (li_view _ _ _ _ _ HI s c Hc) as (Hid & _ & Hids). destruct (Hids rid n Hn) as [Hrid _].
-  assert (Hnf : n ∈ restore_set P C c).
-  { rewrite Hrs. apply elem_sr_failed. split; [apply mvals_elem; by exists rid|]. exact Hfail. }
-  destruct (sched_restore_complete P C b c n Hal Hce Hnf) as (q & Hq & Hres & Hs & Hi & Hr).
-  exists q. split; [done|]. split; [done|]. split; [congruence|]. split; [congruence|done].
+  assert (Hc4 : d_view (f_db st4) !! s = Some c) by (rewrite Ev4, <- Ev5; done).
+  assert (Hfail4 : replica_failed P n (d_tick (f_db st4)) = true).
+  { rewrite Hd5 in Hfail. exact Hfail. }
+  destruct (Hsched s c rid n Hc4 Hn Hfail4) as (q & Hq & Hres & Hs & Hi & Hr).
+  exists (for_addr (r_addr n) b), q. rewrite Hd5. cbn [set_requests d_requests]. rewrite put_requests_lookup.
+  rewrite bool_decide_eq_true_2.
+  - split; [done|]. split; [|done]. unfold for_addr. apply elem_of_list_filter. done.
+  - unfold mentions. apply elem_of_list_fmap. by exists q.
+Qed.
+
+(* the round never gets stuck: the scheduler has an outcome it is allowed to produce, and the round goes through
+   with it (and, by [calm_round], with every other allowed outcome) *)
+Lemma loopinv_ctx_wf st : LoopInv st → ctx_wf (ctx_of_db (f_db st)).
+Proof.
+  intros HI. split.
+  - intros s c Hc. cbn [ctx_of_db c_view] in Hc. destruct (li_view _ _ _ _ _ HI s c Hc) as (Hid & _ & Hids). split; [done|].
+    intros j n Hn. by apply Hids.
+  - intros a h Ha. cbn [ctx_of_db c_hosts] in Ha. by destruct (li_synced _ _ _ _ _ HI a h Ha).
+Qed.
+
+Lemma calm_round_total st plogs nticks :
+  Calm st → (∀ a, plogs a = true) → N.of_nat nticks * p_step P ≤ p_ttl P →
+  ∃ o st', healthy_round P plogs nticks o st = Some st'.
+Proof.
+  intros HC Hpl Httl. unfold healthy_round. set (t := d_tick (f_db st)).
+  destruct (calm_reports plogs (host_addrs st) st HC (host_addrs_nodup st)) as
+    (st1 & E1 & HC1 & Hhi1 & Hse1 & Ht1 & Hsh1 & Hrq1 & _ & Hho1 & Hho1' & Hco1 & Htk1 & Hsp1 & _).
+  { intros a. apply host_addrs_elem. }
+  destruct (calm_execs (host_addrs st1) st1 HC1 (host_addrs_nodup st1)) as
+    (st2 & E2 & HC2 & Hd2 & Hhi2 & Hse2 & Hq2 & _ & Hsd2 & Hmono2 & Heff2).
+  { intros a. apply host_addrs_elem. }
+  destruct (calm_learns (catch_up_events st2) st2 HC2 (catch_up_members st2)) as (st3 & E3 & HC3 & Hd3 & Hhi3 & Hse3 & Hsr3).
+  destruct (calm_ticks nticks st3 HC3) as (st4 & E4 & HC4 & Hd4 & Hho4 & Hhi4 & Hse4).
+  assert (Hsd1 : same_data (f_hosts st) (f_hosts st1)).
+  { intros a. destruct (f_hosts st !! a) as [fh|] eqn:Ha.
+    - exists (delivered st a fh). split; [|done]. apply Hho1; [|done]. apply host_addrs_elem. by eexists.
+    - rewrite Hho1', Ha; [done|]. intros Hin. apply host_addrs_elem in Hin. rewrite Ha in Hin. by destruct Hin. }
+  assert (Hsd4 : same_data (f_hosts st) (f_hosts st4)).
+  { rewrite Hho4. eapply same_data_trans; [exact Hsd1|]. eapply same_data_trans; [exact Hsd2|]. by apply same_run_same_data. }
+  assert (Hfr : fresh_hosts st4 t).
+  { split; [rewrite Hd4, Hd3, Hd2; cbn [set_tick d_tick]; rewrite Ht1; fold t; lia|]. intros a fh4 Ha4. pose proof (Hsd4 a) as Hx.
+    destruct (f_hosts st !! a) as [fh|] eqn:Ha; [|congruence]. destruct Hx as (fh4' & Hfh4' & Hkeys). assert (fh4' = fh4) as -> by congruence.
+    destruct (Hsp1 a fh) as (h & Hh & Htk & Hplog); [apply host_addrs_elem; by eexists|done|].
+    exists h. rewrite Hd4, Hd3, Hd2. cbn [set_tick d_hosts]. split; [done|]. split; [done|]. intros k Hk. apply Hplog; [apply Hpl|]. by apply Hkeys. }
+  set (o := canon P (ctx_of_db (f_db st4)) (λ _, 1)).
+  assert (Hal : allowed P (ctx_of_db (f_db st4)) o = true) by (apply allowed_canon, loopinv_ctx_wf, (cm_inv _ HC4)).
+  destruct (calm_allowed st4 t o HC4 Hfr Hal) as (b & Eo & Hadds & _).
+  exists o. rewrite E1, E2, E3, E4. cbn [fstep]. rewrite Hal, Eo.
+  destruct b as [|q0 b0]; [by eexists|].
+  rewrite Eo in Hal. rewrite (schedule_db P st4 (q0 :: b0) (cm_inv _ HC4) Hal) by (intros x Hx; rewrite Hadds in Hx; by apply elem_of_nil in Hx).
+  by eexists.
+Qed.
+
+(** * the members, one by one *)
+Definition member (st : fstate) (s rid a : N) : Prop := ∃ h, f_hist st !! s = Some h ∧ cur_members h !! rid = Some a.
+Definition mem_tick (st : fstate) (s rid : N) : N :=
+  match rec_of (d_view (f_db st)) s rid with Some n => r_tick n | None => 0 end.
+Definition pending (st : fstate) (a s rid : N) : Prop :=
+  ∃ qs q, d_requests (f_db st) !! a = Some qs ∧ q ∈ qs ∧ is_restore q = true ∧ q_shard q = s ∧ q_inst q = rid.
+
+Lemma calm_member_rec st s rid a :
+  Calm st → member st s rid a →
+  ∃ c n fh, d_view (f_db st) !! s = Some c ∧ s_reps c !! rid = Some n ∧ r_addr n = a ∧ r_tick n ≠ 0 ∧
+            f_hosts st !! a = Some fh ∧ is_Some (fh_reps fh !! (s, rid)).
+Proof.
+  intros HC (h & Hh & Hm). destruct (cm_members _ HC s h Hh) as (c & Hc & Hcc & Hmem).
+  destruct (Hmem rid a Hm) as (_ & _ & fh & lr & Hfh & Hk).
+  destruct (calm_view_member st s h c rid (cm_inv _ HC) Hh Hc Hcc) as [Hiff Haddr].
+  assert (is_Some (s_reps c !! rid)) as [n Hn] by (apply Hiff; by eexists).
+  exists c, n, fh. split; [done|]. split; [done|]. split; [|split; [by apply (cm_stamped _ HC s c rid n)|split; [done|by eexists]]].
+  specialize (Haddr n Hn). congruence.
+Qed.
+
+Lemma calm_member_elsewhere st s rid a a' :
+  Calm st → member st s rid a → member_running (f_hosts st) s rid a' = true → a' = a.
+Proof.
+  intros HC (h & Hh & Hm) Hrun. unfold member_running in Hrun. destruct (f_hosts st !! a') as [fh|] eqn:Ha'; [|done].
+  destruct (fh_reps fh !! (s, rid)) as [lr|] eqn:Hk; [|by rewrite andb_false_r in Hrun].
+  symmetry. by apply (cm_home _ HC a' fh s rid lr h a).
+Qed.
+
+Lemma calm_round_member st st' plogs nticks o s rid a :
+  Calm st → (∀ a, plogs a = true) → N.of_nat nticks * p_step P ≤ p_ttl P →
+  healthy_round P plogs nticks o st = Some st' → member st s rid a →
+  member st' s rid a ∧
+  (member_running (f_hosts st) s rid a = true →
+     member_running (f_hosts st') s rid a = true ∧ mem_tick st' s rid = d_tick (f_db st)) ∧
+  (member_running (f_hosts st) s rid a = false → mem_tick st' s rid = mem_tick st s rid) ∧
+  (pending st a s rid → member_running (f_hosts st') s rid a = true) ∧
+  (member_running (f_hosts st') s rid a = false → p_ttl P < d_tick (f_db st') - mem_tick st' s rid → pending st' a s rid).
+Proof.
+  intros HC Hpl Httl Hround Hmem.
+  destruct (calm_round st st' plogs nticks o HC Hpl Httl Hround) as
+    (b & _ & HC' & Hhi & Htick & _ & _ & _ & Hmono & Heff & Hcore & Hticks & Hsched).
+  assert (Hmem' : member st' s rid a) by (unfold member; by rewrite Hhi).
+  destruct (calm_member_rec st s rid a HC Hmem) as (c & n & fh & Hc & Hn & Hra & Hnz & Hfh & Hk).
+  destruct (calm_member_rec st' s rid a HC' Hmem') as (c' & n' & fh' & Hc' & Hn' & Hra' & Hnz' & Hfh' & Hk').
+  assert (Hrec : rec_of (d_view (f_db st)) s rid = Some n) by (apply rec_of_Some; eauto).
+  assert (Hrec' : rec_of (d_view (f_db st')) s rid = Some n') by (apply rec_of_Some; eauto).
+  destruct (Hticks s rid n' Hrec') as (n0 & Hn0 & Hcase). assert (n0 = n) as -> by congruence.
+  split; [done|]. split; [|split; [|split]].
+  - intros Hrun. split; [by apply Hmono|]. unfold mem_tick. rewrite Hrec'.
+    destruct Hcase as [[_ Ht]|[Hnone _]]; [done|]. rewrite (Hnone a) in Hrun. done.
+  - intros Hrun. unfold mem_tick. rewrite Hrec, Hrec'. destruct Hcase as [[[a' Hr'] _]|[_ Ht]]; [|done].
+    pose proof (calm_member_elsewhere st s rid a a' HC Hmem Hr') as ->. congruence.
+  - intros (qs & q & Hqs & Hq & Hres & Hs & Hi). subst s rid. apply (Heff a fh q Hfh); [right; eauto|done|done].
+  - intros Hrun Hgap. unfold mem_tick in Hgap. rewrite Hrec' in Hgap.
+    assert (Hfail : replica_failed P n' (d_tick (f_db st')) = true).
+    { unfold replica_failed. assert ((r_tick n' =? 0) = false) as -> by (by apply N.eqb_neq).
+      unfold entity_failed. apply N.ltb_lt. exact Hgap. }
+    destruct (Hsched s c' rid n' Hc' Hn' Hfail) as (qs & q & Hqs & Hq & Hres & Hs & Hi). rewrite Hra' in Hqs.
+    exists qs, q. done.
+Qed.
+
+(** * healed *)
+Lemma calm_healed st :
+  Calm st →
+  (∀ s rid a, member st s rid a →
+     member_running (f_hosts st) s rid a = true ∧ d_tick (f_db st) - mem_tick st s rid ≤ p_ttl P) →
+  healed P st = true.
+Proof.
+  intros HC Hall. pose proof (cm_inv _ HC) as HI.
+  unfold healed. apply forallb_forall. intros [s sd] Hin. apply elem_of_list_In, elem_of_map_to_list in Hin. cbn [fst].
+  destruct (cm_defined _ HC s sd Hin) as ([h Hh] & Hne & _).
+  destruct (cm_members _ HC s h Hh) as (c & Hc & Hcc & Hmem).
+  destruct (calm_view st s h c HI Hh Hc Hcc) as (HH & _ & _).
+  destruct (cur_entry_at _ _ _ HI Hh) as [_ Hcurin].
+  destruct (hist_wf_mem_ok _ _ (li_hist _ _ _ _ _ HI _ _ Hh) (cur_version h, cur_members h) Hcurin) as [[Hlo _] _].
+  cbn [snd] in Hlo. unfold shard_size in Hlo. rewrite Hin in Hlo.
+  unfold shard_healed. unfold hist_of. rewrite Hh. cbn [default from_option id].
+  apply andb_true_iff. split; [apply andb_true_iff; split|].
+  - unfold to_shard_state. rewrite Hc. cbn [ss_unavailable]. apply negb_true_iff, negb_false_iff.
+    unfold shard_available. apply bool_decide_eq_true.
+    assert (Hok : ok_replicas P c (d_tick (f_db st)) = mvals (s_reps c)).
+    { unfold ok_replicas. apply filter_all. intros n Hn. apply mvals_elem in Hn as [rid Hn].
+      assert (Hm : member st s rid (r_addr n)).
+      { exists h. split; [done|]. rewrite <- HH, lookup_fmap, Hn. done. }
+      destruct (Hall s rid (r_addr n) Hm) as [_ Hfresh]. unfold mem_tick in Hfresh.
+      assert (Hrec : rec_of (d_view (f_db st)) s rid = Some n) by (apply rec_of_Some; eauto). rewrite Hrec in Hfresh.
+      pose proof (cm_stamped _ HC s c rid n Hc Hn) as Hnz.
+      unfold replica_ok, replica_waiting, replica_failed, entity_failed.
+      assert ((r_tick n =? 0) = false) as -> by (by apply N.eqb_neq). cbn [andb negb].
+      rewrite andb_true_r. apply negb_true_iff, N.ltb_ge. exact Hfresh. }
+    rewrite Hok. unfold mvals. rewrite fmap_length. change (length (map_to_list (s_reps c))) with (size (s_reps c)).
+    assert (Hsz : size (s_reps c) = size (cur_members h)) by (by rewrite <- HH, map_size_fmap).
+    assert (0 < length (sd_members sd))%nat by (destruct (sd_members sd); [done|cbn; lia]).
+    unfold quorum_of. rewrite Hsz. pose proof (Nat.div_lt (size (cur_members h)) 2 ltac:(lia) ltac:(lia)). lia.
+  - apply bool_decide_eq_true. unfold shard_size. by rewrite Hin.
+  - apply forallb_forall. intros [rid a] Hra. apply elem_of_list_In, elem_of_map_to_list in Hra. cbn [fst snd].
+    apply (Hall s rid a). by exists h.
+Qed.
+
+(** * consecutive healthy rounds *)
+Lemma rounds_app plogs nticks os1 os2 st :
+  healthy_rounds P plogs nticks (os1 ++ os2) st =
+  match healthy_rounds P plogs nticks os1 st with Some st1 => healthy_rounds P plogs nticks os2 st1 | None => None end.
+Proof.
+  revert st. induction os1 as [|o os1 IH]; intros st; cbn [healthy_rounds app]; [done|].
+  destruct (healthy_round P plogs nticks o st); [apply IH|done].
+Qed.
+
+Section Rounds.
+Variables (plogs : N → bool) (nticks : nat).
+Hypothesis Hpl : ∀ a, plogs a = true.
+Hypothesis Httl : N.of_nat nticks * p_step P ≤ p_ttl P.
+Let delta : N := N.of_nat nticks * p_step P.
+
+(* while the failure detector waits: a member that does not run keeps the report time it had *)
+Lemma calm_rounds_detect os : ∀ st st' T0,
+  Calm st →
+  (∀ s rid a, member st s rid a → member_running (f_hosts st) s rid a = false → mem_tick st s rid ≤ T0) →
+  healthy_rounds P plogs nticks os st = Some st' →
+  Calm st' ∧ f_hist st' = f_hist st ∧ d_tick (f_db st') = d_tick (f_db st) + N.of_nat (length os) * delta ∧
+  (∀ s rid a, member st' s rid a → member_running (f_hosts st') s rid a = false → mem_tick st' s rid ≤ T0) ∧
+  (os ≠ [] → ∀ s rid a, member st' s rid a → member_running (f_hosts st') s rid a = false →
+     p_ttl P < d_tick (f_db st') - mem_tick st' s rid → pending st' a s rid).
+Proof.
+  induction os as [|o os IH]; intros st st' T0 HC Hold Hr.
+  { cbn in Hr. injection Hr as <-. split; [done|]. split; [done|]. split; [cbn; lia|]. split; [done|]. done. }
+  cbn [healthy_rounds] in Hr. destruct (healthy_round P plogs nticks o st) as [st1|] eqn:E1; [|done].
+  destruct (calm_round st st1 plogs nticks o HC Hpl Httl E1) as (b & _ & HC1 & Hhi1 & Ht1 & _).
+  assert (Hold1 : ∀ s rid a, member st1 s rid a → member_running (f_hosts st1) s rid a = false → mem_tick st1 s rid ≤ T0).
+  { intros s rid a Hm1 Hrun1. assert (Hm : member st s rid a) by (unfold member in *; by rewrite <- Hhi1).
+    destruct (calm_round_member st st1 plogs nticks o s rid a HC Hpl Httl E1 Hm) as (_ & Ha & Hb & _).
+    destruct (member_running (f_hosts st) s rid a) eqn:Erun.
+    - destruct (Ha eq_refl) as [Hx _]. congruence.
+    - rewrite (Hb eq_refl). by apply (Hold s rid a). }
+  destruct (IH st1 st' T0 HC1 Hold1 Hr) as (HC' & Hhi' & Ht' & Hold' & Hpend').
+  split; [done|]. split; [congruence|]. split.
+  { rewrite Ht', Ht1. fold delta. cbn [length]. rewrite Nat2N.inj_succ, N.mul_succ_l. lia. }
+  split; [done|]. intros _. destruct os as [|o' os'].
+  - cbn in Hr. injection Hr as <-. intros s rid a Hm1 Hrun1 Hgap.
+    assert (Hm : member st s rid a) by (unfold member in *; by rewrite <- Hhi1).
+    destruct (calm_round_member st st1 plogs nticks o s rid a HC Hpl Httl E1 Hm) as (_ & _ & _ & _ & Hd). by apply Hd.
+  - by apply Hpend'.
+Qed.
+
+Theorem calm_heal os st st' :
+  Calm st → (0 < nticks)%nat → 0 < p_step P →
+  length os = (detect_rounds P nticks + 2)%nat →
+  healthy_rounds P plogs nticks os st = Some st' →
+  Calm st' ∧ healed P st' = true.
+Proof.
+  intros HC Hnt Hstep Hlen Hr.
+  set (K := detect_rounds P nticks) in *.
+  assert (Hdpos : 0 < delta) by (unfold delta; lia).
+  rewrite <- (take_drop K os), rounds_app in Hr.
+  destruct (healthy_rounds P plogs nticks (take K os) st) as [st1|] eqn:E1; [|done].
+  assert (Hl1 : length (take K os) = K) by (rewrite take_length; lia).
+  destruct (drop K os) as [|o1 [|o2 [|? ?]]] eqn:Ed;
+    try (apply (f_equal length) in Ed; rewrite drop_length in Ed; cbn [length] in Ed; lia).
+  cbn [healthy_rounds] in Hr.
+  destruct (healthy_round P plogs nticks o1 st1) as [st2|] eqn:E2; [|done].
+  destruct (healthy_round P plogs nticks o2 st2) as [st3|] eqn:E3; [|done]. injection Hr as <-.
+  (* phase 1: every member that does not run is declared failed and gets its restore request *)
+  destruct (calm_rounds_detect (take K os) st st1 (d_tick (f_db st)) HC) as (HC1 & Hhi1 & Ht1 & Hold1 & Hpend1); [|done|].
+  { intros s rid a Hm _. destruct (calm_member_rec st s rid a HC Hm) as (c & n & _ & Hc & Hn & _).
+    unfold mem_tick. assert (Hrec : rec_of (d_view (f_db st)) s rid = Some n) by (apply rec_of_Some; eauto). rewrite Hrec.
+    destruct (cm_timeok _ HC) as (Hto & _). by destruct (Hto s c rid n Hc Hn). }
+  rewrite Hl1 in Ht1.
+  assert (HK : p_ttl P < N.of_nat K * delta).
+  { unfold K, detect_rounds. fold delta. rewrite Nat2N.inj_succ, N2Nat.id.
+    pose proof (N.mul_succ_div_gt (p_ttl P) delta ltac:(lia)). lia. }
+  assert (Hall1 : ∀ s rid a, member st1 s rid a → member_running (f_hosts st1) s rid a = false → pending st1 a s rid).
+  { intros s rid a Hm Hrun. apply Hpend1; [|done|done|].
+    - intros Hnil. apply (f_equal length) in Hnil. rewrite Hl1 in Hnil. unfold K, detect_rounds in Hnil. cbn in Hnil. lia.
+    - pose proof (Hold1 s rid a Hm Hrun). lia. }
+  (* phase 2: they are restarted *)
+  destruct (calm_round st1 st2 plogs nticks o1 HC1 Hpl Httl E2) as (b2 & _ & HC2 & Hhi2 & Ht2 & _).
+  assert (Hall2 : ∀ s rid a, member st2 s rid a → member_running (f_hosts st2) s rid a = true).
+  { intros s rid a Hm2. assert (Hm : member st1 s rid a) by (unfold member in *; by rewrite <- Hhi2).
+    destruct (calm_round_member st1 st2 plogs nticks o1 s rid a HC1 Hpl Httl E2 Hm) as (_ & Ha & _ & Hc & _).
+    destruct (member_running (f_hosts st1) s rid a) eqn:Erun; [by apply Ha|]. apply Hc. by apply Hall1. }
+  (* phase 3: they report *)
+  destruct (calm_round st2 st3 plogs nticks o2 HC2 Hpl Httl E3) as (b3 & _ & HC3 & Hhi3 & Ht3 & _).
+  split; [done|]. apply (calm_healed st3 HC3). intros s rid a Hm3.
+  assert (Hm : member st2 s rid a) by (unfold member in *; by rewrite <- Hhi3).
+  destruct (calm_round_member st2 st3 plogs nticks o2 s rid a HC2 Hpl Httl E3 Hm) as (_ & Ha & _).
+  destruct (Ha (Hall2 s rid a Hm)) as [Hrun Htk]. split; [done|]. rewrite Htk, Ht3. fold delta. unfold delta. lia.
+Qed.
+
+(* ... and it stays healed: any number of healthy rounds >= the bound *)
+Lemma calm_rounds_calm os : ∀ st st', Calm st → healthy_rounds P plogs nticks os st = Some st' → Calm st'.
+Proof.
+  induction os as [|o os IH]; intros st st' HC Hr; cbn [healthy_rounds] in Hr; [by injection Hr as <-|].
+  destruct (healthy_round P plogs nticks o st) as [st1|] eqn:E1; [|done].
+  destruct (calm_round st st1 plogs nticks o HC Hpl Httl E1) as (b & _ & HC1 & _). by eapply IH.
+Qed.
+
+Theorem calm_heal_ge os st st' :
+  Calm st → (0 < nticks)%nat → 0 < p_step P →
+  (detect_rounds P nticks + 2 ≤ length os)%nat →
+  healthy_rounds P plogs nticks os st = Some st' →
+  Calm st' ∧ healed P st' = true.
+Proof.
+  intros HC Hnt Hstep Hlen Hr. set (k := (length os - (detect_rounds P nticks + 2))%nat).
+  rewrite <- (take_drop k os), rounds_app in Hr.
+  destruct (healthy_rounds P plogs nticks (take k os) st) as [st1|] eqn:E1; [|done].
+  apply (calm_heal (drop k os) st1 st'); [by eapply calm_rounds_calm|done|done| |done].
+  rewrite drop_length. unfold k. lia.
+Qed.
+End Rounds.
+
+(** * the rank *)
+Definition pendingb (st : fstate) (a s rid : N) : bool :=
+  existsb (λ q, is_restore q && (q_shard q =? s) && (q_inst q =? rid)) (default [] (d_requests (f_db st) !! a)).
+
+Lemma pendingb_spec st a s rid : pendingb st a s rid = true ↔ pending st a s rid.
+Proof.
+  unfold pendingb, pending. rewrite existsb_exists. split.
+  - intros (q & Hq & Hx). apply elem_of_list_In in Hq. destruct (d_requests (f_db st) !! a) as [qs|]; [|by apply elem_of_nil in Hq].
+    apply andb_true_iff in Hx as [Hx H3]. apply andb_true_iff in Hx as [H1 H2]. apply N.eqb_eq in H2, H3. exists qs, q. done.
+  - intros (qs & q & -> & Hq & H1 & H2 & H3). exists q. split; [by apply elem_of_list_In|].
+    rewrite H1, H2, H3, !N.eqb_refl. done.
+Qed.
+
+(* per member: 0 runs and is reported in time; 1 runs, not yet reported; 2 stopped, its restore request is
+   scheduled; 3 + the time left until the failure detector fires *)
+Definition rank_member (st : fstate) (m : N * N * N) : nat :=
+  let '(s, rid, a) := m in
+  let age := d_tick (f_db st) - mem_tick st s rid in
+  if member_running (f_hosts st) s rid a then (if p_ttl P <? age then 1%nat else 0%nat)
+  else if pendingb st a s rid then 2%nat
+  else (3 + N.to_nat (p_ttl P + 1 - age))%nat.
+
+Definition members_list (st : fstate) : list (N * N * N) :=
+  map_to_list (f_hist st) ≫= λ sh, (λ ra, (sh.1, ra.1, ra.2)) <$> map_to_list (cur_members sh.2).
+
+Definition heal_rank (st : fstate) : nat := sum_list_with (rank_member st) (members_list st).
+
+Lemma members_list_elem st s rid a : (s, rid, a) ∈ members_list st ↔ member st s rid a.
+Proof.
+  unfold members_list, member. rewrite elem_of_list_bind. split.
+  - intros ([s0 h] & Hin & Hsh). apply elem_of_map_to_list in Hsh. apply elem_of_list_fmap in Hin as ([rid0 a0] & [= -> -> ->] & Hra).
+    apply elem_of_map_to_list in Hra. by exists h.
+  - intros (h & Hh & Hm). exists (s, h). split; [|by apply elem_of_map_to_list].
+    apply elem_of_list_fmap. exists (rid, a). split; [done|]. by apply elem_of_map_to_list.
+Qed.
+
+Lemma sum_list_with_lt {A} (f g : A → nat) (l : list A) :
+  (∀ x, x ∈ l → (f x ≤ g x)%nat) → (∃ x, x ∈ l ∧ (f x < g x)%nat) → (sum_list_with f l < sum_list_with g l)%nat.
+Proof.
+  induction l as [|y l IH]; intros Hle (x & Hx & Hlt); [by apply elem_of_nil in Hx|]. cbn [sum_list_with].
+  assert (Hle' : (sum_list_with f l ≤ sum_list_with g l)%nat).
+  { clear -Hle. induction l as [|z l IH]; cbn [sum_list_with]; [lia|].
+    pose proof (Hle z ltac:(right; left)). assert (sum_list_with f l ≤ sum_list_with g l)%nat; [|lia].
+    apply IH. intros x Hx. apply Hle. apply elem_of_cons in Hx as [->|Hx]; [left|right; by right]. }
+  pose proof (Hle y ltac:(left)) as Hy. apply elem_of_cons in Hx as [->|Hx]; [lia|].
+  assert (sum_list_with f l < sum_list_with g l)%nat; [|lia]. apply IH; [|by exists x].
+  intros z Hz. apply Hle. by right.
+Qed.
+
+Lemma rank_zero st s rid a :
+  rank_member st (s, rid, a) = 0%nat →
+  member_running (f_hosts st) s rid a = true ∧ d_tick (f_db st) - mem_tick st s rid ≤ p_ttl P.
+Proof.
+  unfold rank_member. destruct (member_running (f_hosts st) s rid a).
+  - destruct (p_ttl P <? _) eqn:E; [done|]. apply N.ltb_ge in E. done.
+  - destruct (pendingb st a s rid); [done|]. lia.
+Qed.
+
+Theorem calm_progress st st' plogs nticks o :
+  Calm st → (∀ a, plogs a = true) → (0 < nticks)%nat → 0 < p_step P → N.of_nat nticks * p_step P ≤ p_ttl P →
+  healed P st = false → healthy_round P plogs nticks o st = Some st' →
+  (heal_rank st' < heal_rank st)%nat.
+Proof.
+  intros HC Hpl Hnt Hstep Httl Hnh Hround.
+  destruct (calm_round st st' plogs nticks o HC Hpl Httl Hround) as (b & _ & HC' & Hhi & Htick & _).
+  assert (Hd : 0 < N.of_nat nticks * p_step P) by lia.
+  unfold heal_rank. assert (members_list st' = members_list st) as -> by (unfold members_list; by rewrite Hhi).
+  (* every member: the rank does not grow, and it drops unless it is 0 *)
+  assert (Hstepm : ∀ s rid a, member st s rid a →
+            (rank_member st' (s, rid, a) ≤ rank_member st (s, rid, a))%nat ∧
+            (rank_member st (s, rid, a) ≠ 0%nat → rank_member st' (s, rid, a) < rank_member st (s, rid, a))%nat).
+  { intros s rid a Hm.
+    destruct (calm_round_member st st' plogs nticks o s rid a HC Hpl Httl Hround Hm) as (Hm' & Ha & Hb & Hc & Hdd).
+    destruct (calm_member_rec st s rid a HC Hm) as (c & n & _ & Hcv & Hn & _).
+    assert (Hmt : mem_tick st s rid ≤ d_tick (f_db st)).
+    { unfold mem_tick. assert (Hrec : rec_of (d_view (f_db st)) s rid = Some n) by (apply rec_of_Some; eauto). rewrite Hrec.
+      destruct (cm_timeok _ HC) as (Hto & _). by destruct (Hto s c rid n Hcv Hn). }
+    unfold rank_member. destruct (member_running (f_hosts st) s rid a) eqn:Erun.
+    - destruct (Ha eq_refl) as [-> ->]. rewrite Htick.
+      assert ((p_ttl P <? d_tick (f_db st) + N.of_nat nticks * p_step P - d_tick (f_db st)) = false) as -> by (apply N.ltb_ge; lia).
+      destruct (p_ttl P <? _); split; lia.
+    - destruct (pendingb st a s rid) eqn:Ep.
+      + apply pendingb_spec in Ep. rewrite (Hc Ep). destruct (p_ttl P <? _); split; lia.
+      + destruct (member_running (f_hosts st') s rid a) eqn:Erun'; [destruct (p_ttl P <? _); split; lia|].
+        destruct (pendingb st' a s rid) eqn:Ep'; [split; lia|].
+        assert (Hng : ¬ (p_ttl P < d_tick (f_db st') - mem_tick st' s rid)).
+        { intros Hg. apply (Hdd eq_refl) in Hg. apply pendingb_spec in Hg. congruence. }
+        rewrite (Hb eq_refl) in Hng |- *. rewrite Htick in Hng |- *. split; lia. }
+  apply sum_list_with_lt.
+  - intros [[s rid] a] Hx. apply members_list_elem in Hx. by apply Hstepm.
+  - destruct (decide (Forall (λ m, rank_member st m = 0%nat) (members_list st))) as [Hall|Hnall].
+    + exfalso. rewrite (calm_healed st HC) in Hnh; [done|]. intros s rid a Hm. apply rank_zero.
+      rewrite Forall_forall in Hall. apply Hall. by apply members_list_elem.
+    + apply not_Forall_Exists in Hnall; [|apply _]. apply Exists_exists in Hnall as ([[s rid] a] & Hx & Hnz).
+      exists (s, rid, a). split; [done|]. apply members_list_elem in Hx. by apply Hstepm.
 Qed.
 End Heal.
+
+(** * the decidable part of [Calm] (FleetRounds.calm_restb) is sound *)
+Lemma boxed_all_requests st q : boxed st q → q ∈ all_requests st.
+Proof.
+  unfold boxed, in_box, all_requests. intros [(a & qs & Hl & Hin)|[(a & qs & Hl & Hin)|[(a & fh & Hl & Hin)|Hq]]].
+  - apply elem_of_app. left. apply elem_of_list_In, in_concat. exists qs. split; [|by apply elem_of_list_In].
+    apply elem_of_list_In, elem_of_list_fmap. exists (a, qs). split; [done|]. by apply elem_of_map_to_list.
+  - apply elem_of_app. right. apply elem_of_app. left. apply elem_of_list_In, in_concat. exists qs. split; [|by apply elem_of_list_In].
+    apply elem_of_list_In, elem_of_list_fmap. exists (a, qs). split; [done|]. by apply elem_of_map_to_list.
+  - apply elem_of_app. right. apply elem_of_app. right. apply elem_of_list_In, in_concat. exists (fh_queue fh).
+    split; [|by apply elem_of_list_In]. apply elem_of_list_In, elem_of_list_fmap. exists fh. split; [done|].
+    apply elem_of_list_fmap. exists (a, fh). split; [done|]. by apply elem_of_map_to_list.
+  - by apply elem_of_nil in Hq.
+Qed.
+
+Lemma time_okb_sound d : time_okb d = true → time_ok d.
+Proof.
+  unfold time_okb. intros H. apply andb_true_iff in H as [H H3]. apply andb_true_iff in H as [H1 H2]. split; [|split].
+  - intros s c n r Hc Hn. pose proof (forallb_map_to_list _ _ H1 s c Hc) as Hx. cbn [snd] in Hx.
+    pose proof (forallb_map_to_list _ _ Hx n r Hn) as Hy. cbn [snd] in Hy. apply andb_true_iff in Hy as [Hy1 Hy2].
+    apply N.leb_le in Hy1, Hy2. done.
+  - intros a h Ha. pose proof (forallb_map_to_list _ _ H2 a h Ha) as Hx. by apply N.leb_le in Hx.
+  - intros a r Ha. pose proof (forallb_map_to_list _ _ H3 a r Ha) as Hx. by apply N.leb_le in Hx.
+Qed.
+
+Lemma calm_restb_sound st : LoopInv st → calm_restb st = true → Calm st.
+Proof.
+  intros HI H. unfold calm_restb in H.
+  apply andb_true_iff in H as [H Hhome]. apply andb_true_iff in H as [H Hstamped]. apply andb_true_iff in H as [H Hmem].
+  apply andb_true_iff in H as [H Hboxes]. apply andb_true_iff in H as [H Hkill]. apply andb_true_iff in H as [H Hhosts].
+  apply andb_true_iff in H as [H Hviewdef]. apply andb_true_iff in H as [H Hdef]. apply andb_true_iff in H as [Htok Htime].
+  apply bool_decide_eq_true in Hkill. apply N.ltb_lt in Htime.
+  assert (Hcur : ∀ s rid a, cur_members (hist_of (f_hist st) s) !! rid = Some a → ∃ h, f_hist st !! s = Some h ∧ cur_members h !! rid = Some a).
+  { intros s rid a. unfold hist_of. destruct (f_hist st !! s) as [h|]; cbn [default from_option id cur_members]; [by exists h|].
+    by rewrite lookup_empty. }
+  split.
+  - exact HI.
+  - by apply time_okb_sound.
+  - exact Htime.
+  - intros s sd Hs. pose proof (forallb_map_to_list _ _ Hdef s sd Hs) as Hx. cbn [fst snd] in Hx.
+    apply andb_true_iff in Hx as [Hx H3]. apply andb_true_iff in Hx as [H1 H2].
+    apply bool_decide_eq_true in H1. apply negb_true_iff, bool_decide_eq_false in H2. apply negb_true_iff, N.eqb_neq in H3. done.
+  - intros s [c Hc]. pose proof (forallb_map_to_list _ _ Hviewdef s c Hc) as Hx. cbn [fst snd] in Hx.
+    apply andb_true_iff in Hx as [H1 H2]. apply bool_decide_eq_true in H1, H2. done.
+  - intros a fh Ha. pose proof (forallb_map_to_list _ _ Hhosts a fh Ha) as Hx. cbn [fst snd] in Hx.
+    apply andb_true_iff in Hx as [H1 H2]. apply bool_decide_eq_true in H2. done.
+  - exact Hkill.
+  - intros q Hq. apply boxed_all_requests in Hq. rewrite forallb_forall in Hboxes. apply elem_of_list_In in Hq.
+    specialize (Hboxes q Hq). cbn zeta in Hboxes. apply orb_true_iff in Hboxes as [Hboxes|Hboxes]; [apply orb_true_iff in Hboxes as [Hboxes|Hboxes]|].
+    + left. apply andb_true_iff in Hboxes as [Hx H3]. apply andb_true_iff in Hx as [H1 H2].
+      apply negb_true_iff in H2. apply is_member_true in H3 as [a H3]. destruct (Hcur _ _ _ H3) as (h & Hh & Hm).
+      split; [done|]. split; [done|]. by exists h, a.
+    + right; left. apply andb_true_iff in Hboxes as [Hx H4]. apply andb_true_iff in Hx as [Hx H3]. apply andb_true_iff in Hx as [H1 H2].
+      apply negb_true_iff, N.eqb_neq in H2. apply negb_true_iff, bool_decide_eq_false in H3.
+      split; [done|]. split; [done|]. split; [done|]. intros Hadd. rewrite Hadd in H4. cbn in H4. by apply negb_true_iff, bool_decide_eq_false in H4.
+    + right; right. apply andb_true_iff in Hboxes as [H1 H2]. split; [done|].
+      destruct (q_members q) as [|y [|? ?]]; try done. exists y. split; [done|]. intros h Hh.
+      unfold hist_of in H2. rewrite Hh in H2. cbn [default from_option id] in H2. by apply negb_true_iff in H2.
+  - intros s h Hh. pose proof (forallb_map_to_list _ _ Hmem s h Hh) as Hx. cbn [fst snd] in Hx.
+    destruct (d_view (f_db st) !! s) as [c|]; [|done]. apply andb_true_iff in Hx as [Hx1 Hx2]. apply N.eqb_eq in Hx1.
+    exists c. split; [done|]. split; [done|]. intros rid a Hra.
+    pose proof (forallb_map_to_list _ _ Hx2 rid a Hra) as Hy. cbn [fst snd] in Hy.
+    apply andb_true_iff in Hy as [Hy H3]. apply andb_true_iff in Hy as [H1 H2].
+    apply negb_true_iff, N.eqb_neq in H1, H2. split; [done|]. split; [done|].
+    destruct (f_hosts st !! a) as [fh|]; [|done]. apply bool_decide_eq_true in H3 as [lr H3]. by exists fh, lr.
+  - intros s c rid n Hc Hn. pose proof (forallb_map_to_list _ _ Hstamped s c Hc) as Hx. cbn [snd] in Hx.
+    pose proof (forallb_map_to_list _ _ Hx rid n Hn) as Hy. cbn [snd] in Hy. by apply negb_true_iff, N.eqb_neq in Hy.
+  - intros a fh s rid lr h a' Ha Hk Hh Hm. pose proof (forallb_map_to_list _ _ Hhome a fh Ha) as Hx. cbn [fst snd] in Hx.
+    pose proof (forallb_map_to_list _ _ Hx (s, rid) lr Hk) as Hy. cbn [fst snd] in Hy.
+    unfold hist_of in Hy. rewrite Hh in Hy. cbn [default from_option id] in Hy. rewrite Hm in Hy. by apply N.eqb_eq in Hy.
+  - intros a fh s rid lr Ha Hk Hrun. pose proof (forallb_map_to_list _ _ Hhome a fh Ha) as Hx. cbn [fst snd] in Hx.
+    pose proof (forallb_map_to_list _ _ Hx (s, rid) lr Hk) as Hy. cbn [fst snd] in Hy.
+    destruct (cur_members (hist_of (f_hist st) s) !! rid) as [a'|] eqn:Em; [|by rewrite Hrun in Hy].
+    destruct (Hcur _ _ _ Em) as (h & Hh & Hm). exists h. split; [done|]. by eexists.
+Qed.
+
+(** * a NodeHost crashes and comes back: the fleet stays calm *)
+Lemma calm_bounce P st a st1 st2 :
+  Calm st → fstep P st (ECrash a) = FOk st1 → fstep P st1 (ERestart a) = FOk st2 → Calm st2.
+Proof.
+  intros HC E1 E2. pose proof (cm_inv _ HC) as HI.
+  pose proof (step_inv P st (ECrash a) st1 HI I E1) as HI1. pose proof (step_inv P st1 (ERestart a) st2 HI1 I E2) as HI2.
+  cbn [fstep] in E1. destruct (f_hosts st !! a) as [fh|] eqn:Ha; [|done]. destruct (fh_up fh) eqn:Hup; [|done]. injection E1 as <-.
+  cbn [fstep set_host f_hosts] in E2. rewrite lookup_insert in E2. cbn [fh_up] in E2. injection E2 as <-.
+  set (reps' := (λ lr, mkLRep false (lr_ver lr)) <$> fh_reps fh) in *.
+  set (fh' := mkFHost true (fh_region fh) reps' [] None) in *.
+  assert (Hhosts : f_hosts (set_host (set_host st a (mkFHost false (fh_region fh) reps' [] None)) a fh') = <[a := fh']> (f_hosts st)).
+  { unfold set_host. cbn [f_hosts]. by rewrite insert_insert. }
+  pose proof (calm_hcalm st HC) as HH.
+  apply (calm_change_hosts st _ HC HI2); [done|done| |].
+  - rewrite Hhosts. split.
+    + intros b fhb. destruct (decide (b = a)) as [->|Hne].
+      * rewrite lookup_insert. intros [= <-]. done.
+      * rewrite lookup_insert_ne by done. apply (hc_up _ _ HH).
+    + intros s h rid b Hh Hm. destruct (hc_members _ _ HH s h rid b Hh Hm) as (fhb & lr & Hfhb & Hk).
+      destruct (decide (b = a)) as [->|Hne].
+      * rewrite lookup_insert. assert (fhb = fh) as -> by congruence. exists fh'. eexists. split; [done|].
+        cbn [fh' fh_reps]. unfold reps'. rewrite lookup_fmap, Hk. done.
+      * rewrite lookup_insert_ne by done. eauto.
+    + intros b fhb s rid lr h a'. destruct (decide (b = a)) as [->|Hne].
+      * rewrite lookup_insert. intros [= <-] Hk. cbn [fh' fh_reps] in Hk. unfold reps' in Hk. rewrite lookup_fmap in Hk.
+        destruct (fh_reps fh !! (s, rid)) as [lr0|] eqn:E0; [|done]. by apply (hc_home _ _ HH a fh s rid lr0 h a').
+      * rewrite lookup_insert_ne by done. apply (hc_home _ _ HH).
+    + intros b fhb s rid lr. destruct (decide (b = a)) as [->|Hne].
+      * rewrite lookup_insert. intros [= <-] Hk Hr. cbn [fh' fh_reps] in Hk. unfold reps' in Hk. rewrite lookup_fmap in Hk.
+        destruct (fh_reps fh !! (s, rid)) as [lr0|]; [|done]. injection Hk as <-. done.
+      * rewrite lookup_insert_ne by done. apply (hc_nostray _ _ HH).
+  - intros q. unfold boxed, in_box. rewrite Hhosts. cbn [set_host f_db].
+    intros [Hq|[Hq|[(b & fhb & Hb & Hin)|Hq]]]; [by left|by right; left| |by right; right; right].
+    destruct (decide (b = a)) as [->|Hne].
+    + rewrite lookup_insert in Hb. injection Hb as <-. by apply elem_of_nil in Hin.
+    + rewrite lookup_insert_ne in Hb by done. right; right; left. eauto.
+Qed.
+
+(* a healed and clean fleet (FleetLiveProofs.Steady) whose members have all reported is calm *)
+Lemma steady_calm st :
+  Steady st → time_ok (f_db st) →
+  (∀ s sd, d_shards (f_db st) !! s = Some sd → sd_app sd ≠ 0) →
+  (∀ s, is_Some (d_view (f_db st) !! s) → is_Some (d_shards (f_db st) !! s) ∧ is_Some (f_hist st !! s)) →
+  (∀ s h rid a, f_hist st !! s = Some h → cur_members h !! rid = Some a → rid ≠ 0 ∧ a ≠ 0) →
+  (∀ s c rid n, d_view (f_db st) !! s = Some c → s_reps c !! rid = Some n → r_tick n ≠ 0) →
+  (∀ a fh s rid lr h a', f_hosts st !! a = Some fh → fh_reps fh !! (s, rid) = Some lr →
+     f_hist st !! s = Some h → cur_members h !! rid = Some a' → a' = a) →
+  Calm st.
+Proof.
+  intros HS Hto Happ Hvd Hnz Hst Hhome. destruct (sy_boxes _ HS) as (Hrq & Hog & Hkl). split.
+  - apply (sy_inv _ HS).
+  - exact Hto.
+  - apply (sy_time _ HS).
+  - intros s sd Hs. destruct (sy_defined _ HS s sd Hs) as [H1 H2]. split; [done|]. split; [done|]. by apply (Happ s).
+  - exact Hvd.
+  - intros a fh Ha. destruct (sy_hosts _ HS a fh Ha) as (H1 & _ & H3). done.
+  - exact Hkl.
+  - intros q [(a & qs & Hl & _)|[(a & qs & Hl & _)|[(a & fh & Hl & Hin)|Hq]]].
+    + by rewrite Hrq, lookup_empty in Hl.
+    + by rewrite Hog, lookup_empty in Hl.
+    + destruct (sy_hosts _ HS a fh Hl) as (_ & H2 & _). rewrite H2 in Hin. by apply elem_of_nil in Hin.
+    + by apply elem_of_nil in Hq.
+  - intros s h Hh. destruct (sy_members _ HS s h Hh) as (c & Hc & Hcc & Hmem). exists c. split; [done|]. split; [done|].
+    intros rid a Hm. destruct (Hnz s h rid a Hh Hm) as [H1 H2]. split; [done|]. split; [done|].
+    destruct (Hmem rid a Hm) as (fh & lr & Hfh & Hk & _). by exists fh, lr.
+  - exact Hst.
+  - exact Hhome.
+  - intros a fh s rid lr Ha Hk Hrun. destruct (sy_nostray _ HS a fh s rid lr Ha Hk Hrun) as (h & Hh & Hm & _). exists h. split; [done|]. by eexists.
+Qed.
+
+(* events other than scheduling rounds need no hypothesis on the random source *)
+Definition not_schedule (ev : event) : bool := match ev with ESchedule _ => false | _ => true end.
+Lemma fresh_run_faults P evs : ∀ st, forallb not_schedule evs = true → fresh_run P st evs.
+Proof.
+  induction evs as [|ev evs IH]; intros st H; cbn [fresh_run]; [done|].
+  cbn [forallb] in H. apply andb_true_iff in H as [H1 H2]. split; [by destruct ev|].
+  destruct (fstep P st ev); [by apply IH|by apply IH|done].
+Qed.
+
+(* the part of [calm_round] quoted by props/C01.v *)
+Lemma calm_round_short P st st' plogs nticks o :
+  Calm st → (∀ a, plogs a = true) → N.of_nat nticks * p_step P ≤ p_ttl P →
+  healthy_round P plogs nticks o st = Some st' →
+  ∃ b, o = OBatch b ∧ Calm st' ∧ f_hist st' = f_hist st ∧
+    (∀ a fh, f_hosts st' !! a = Some fh → fh_queue fh = []) ∧
+    (∀ a s rid, member_running (f_hosts st) s rid a = true → member_running (f_hosts st') s rid a = true).
+Proof.
+  intros HC Hpl Httl Hr.
+  destruct (calm_round P st st' plogs nticks o HC Hpl Httl Hr) as (b & H1 & H2 & H3 & _ & _ & H4 & _ & H5 & _).
+  exists b. auto.
+Qed.
+
+(** * errNotEnoughNodeHost, from ANY state of the invariant: cause, and exclusion by a spare NodeHost *)
+(* NodeHost [a] is spare for shard [s]: it is up, runs no replica of s and has not been the address of a member of
+   s in any membership from the one Drummer's view shows onwards *)
+Definition spare (st : fstate) (a s : N) : Prop :=
+  (∃ fh, f_hosts st !! a = Some fh ∧ fh_up fh = true ∧ ∀ rid lr, fh_reps fh !! (s, rid) = Some lr → lr_running lr = false) ∧
+  (∀ e rid, e ∈ hist_of (f_hist st) s → view_ver (f_db st) s ≤ e.1 → e.2 !! rid ≠ Some a).
+
+(* Drummer's record of host a: it reported at t and is not known to host shard s *)
+Definition free_at (d : db) (a s t : N) : Prop :=
+  ∃ h, d_hosts d !! a = Some h ∧ h_addr h = a ∧ h_tick h = t ∧ s ∉ h_shards h.
+
+Section NoError.
+Variable P : params.
+
+Lemma steps_keep (Q : fstate → Prop) evs :
+  (∀ st ev st', ev ∈ evs → LoopInv st → Q st → fstep P st ev = FOk st' → Q st') →
+  forallb not_schedule evs = true →
+  ∀ st, LoopInv st → Q st → ∃ st', steps P st evs = Some st' ∧ LoopInv st' ∧ Q st'.
+Proof.
+  induction evs as [|ev evs IH]; intros Hstep Hns st HI HQ; [by exists st|].
+  cbn [forallb] in Hns. apply andb_true_iff in Hns as [Hn1 Hns].
+  assert (Hfr : fresh_ok st ev) by (by destruct ev).
+  rewrite steps_cons. pose proof (step_no_panic P st ev HI Hfr) as Hnp.
+  destruct (fstep P st ev) as [st1| |] eqn:E; [| |done].
+  - apply IH; [|done| |].
+    + intros st0 ev0 st0' Hin. apply Hstep. by right.
+    + by eapply step_inv.
+    + eapply Hstep; [left|done|done|done].
+  - apply IH; [|done|done|done]. intros st0 ev0 st0' Hin. apply Hstep. by right.
+Qed.
+
+Lemma view_ver_mono d c d' s : next P d c = Some d' → view_ver d s ≤ view_ver d' s.
+Proof.
+  intros Hn. pose proof (step_ver_mono P d c d' Hn s) as Hm. unfold view_ver, ver in *.
+  destruct (d_view d !! s) as [c0|]; [|lia]. destruct (Hm (s_cci c0) eq_refl) as (v' & Hv' & Hle).
+  destruct (d_view d' !! s) as [c1|]; [|done]. cbn in Hv'. injection Hv' as <-. done.
+Qed.
+
+(* the view never places shard s on a host that was not a member's address since version v0 *)
+Lemma spare_not_on st a s v0 :
+  LoopInv st → v0 ≤ view_ver (f_db st) s →
+  (∀ e rid, e ∈ hist_of (f_hist st) s → v0 ≤ e.1 → e.2 !! rid ≠ Some a) → s ∉ shards_on (d_view (f_db st)) a.
+Proof.
+  intros HI Hv Hsp Hin. unfold shards_on in Hin. apply elem_of_dom in Hin as [c Hc]. apply map_filter_lookup_Some in Hc as [Hc Ha].
+  cbn [snd] in Ha. destruct (li_view _ _ _ _ _ HI s c Hc) as (_ & HH & _). unfold Hf in HH. apply entry_at_Some in HH.
+  unfold view_ver in Hv. rewrite Hc in Hv.
+  unfold addrs_of in Ha. apply elem_of_list_fmap in Ha as (n & -> & Hn). apply mvals_elem in Hn as [rid Hn].
+  apply (Hsp _ rid HH); [done|]. cbn [snd]. by rewrite lookup_fmap, Hn.
+Qed.
+
+(* one host reports (any state of the invariant) *)
+Lemma report_free st a fh plog :
+  LoopInv st → f_hosts st !! a = Some fh → fh_up fh = true →
+  ∃ st', steps P st [ESnap a plog; EDeliver a false] = Some st' ∧ LoopInv st' ∧
+    f_hist st' = f_hist st ∧ d_tick (f_db st') = d_tick (f_db st) ∧
+    (∀ b, fh_reps <$> f_hosts st' !! b = fh_reps <$> f_hosts st !! b) ∧
+    (∀ b, fh_up <$> f_hosts st' !! b = fh_up <$> f_hosts st !! b) ∧
+    (∀ s, view_ver (f_db st) s ≤ view_ver (f_db st') s) ∧
+    (∀ s, spare st a s → free_at (f_db st') a s (d_tick (f_db st))) ∧
+    (∀ b s t v0, b ≠ a → v0 ≤ view_ver (f_db st) s →
+       (∀ e rid, e ∈ hist_of (f_hist st) s → v0 ≤ e.1 → e.2 !! rid ≠ Some b) →
+       free_at (f_db st) b s t → free_at (f_db st') b s t).
+Proof.
+  intros HI Ha Hup.
+  set (r := host_report (f_db st) (f_hist st) a fh plog).
+  set (fh1 := mkFHost true (fh_region fh) (fh_reps fh) (fh_queue fh) (Some r)).
+  set (st1 := set_host st a fh1).
+  assert (E1 : fstep P st (ESnap a plog) = FOk st1) by (cbn [fstep]; by rewrite Ha, Hup).
+  pose proof (step_inv P st (ESnap a plog) st1 HI I E1) as HI1.
+  assert (Ha1 : f_hosts st1 !! a = Some fh1) by (unfold st1, set_host; cbn; by rewrite lookup_insert).
+  pose proof (step_deliver_no_panic P st1 a false HI1) as Hnp.
+  cbn [fstep] in Hnp. rewrite Ha1 in Hnp. cbn [fh_up fh1 fh_out] in Hnp.
+  destruct (db_step P (f_db st1) (CReport r)) as [d' v| |] eqn:Es; try done. clear Hnp.
+  set (fh2 := mkFHost true (fh_region fh1) (fh_reps fh1) (fh_queue fh1 ++ lookup_requests d' a) None).
+  set (st2 := mkF d' (<[a := fh2]> (f_hosts st1)) (f_hist st1) (f_seen st1)).
+  assert (E2 : fstep P st1 (EDeliver a false) = FOk st2).
+  { cbn [fstep]. rewrite Ha1. cbn [fh_up fh1 fh_out]. by rewrite Es. }
+  pose proof (step_inv P st1 (EDeliver a false) st2 HI1 I E2) as HI2.
+  change (f_db st1) with (f_db st) in Es.
+  assert (Hn : next P (f_db st) (CReport r) = Some d') by (unfold next; by rewrite Es).
+  pose proof Hn as Hn'. apply next_cases in Hn' as [[Hf' _]|[_ (view' & kill' & Hvu & Ed')]];
+    [rewrite (li_failed _ _ _ _ _ HI) in Hf'; done|].
+  pose proof (li_deadline _ _ _ _ _ HI) as Hdl.
+  destruct (report_result_all (f_db st) (stamp (f_db st) r) view' kill' Hdl) as (F1 & F2 & F3 & F4 & F5 & F6 & F7 & F8).
+  rewrite <- Ed' in F1, F2, F3, F4, F5, F6.
+  assert (Htick : d_tick d' = d_tick (f_db st)).
+  { rewrite Ed'. by destruct (DBTimeProofs.report_result_fields (f_db st) (stamp (f_db st) r) view' kill') as (Et & _). }
+  exists st2. split; [cbn [steps]; by rewrite E1, E2|]. split; [done|]. split; [done|]. split; [done|].
+  assert (Hh2 : ∀ b, f_hosts st2 !! b = if decide (b = a) then Some fh2 else f_hosts st !! b).
+  { intros b. cbn [st2 f_hosts st1 set_host]. rewrite insert_insert. destruct (decide (b = a)) as [->|Hne];
+      [by rewrite lookup_insert|by rewrite lookup_insert_ne]. }
+  split. { intros b. rewrite Hh2. destruct (decide (b = a)) as [->|Hne]; [by rewrite Ha|done]. }
+  split. { intros b. rewrite Hh2. destruct (decide (b = a)) as [->|Hne]; [rewrite Ha; cbn; by rewrite Hup|done]. }
+  assert (Hvm : ∀ s, view_ver (f_db st) s ≤ view_ver d' s) by (intros s; by eapply view_ver_mono).
+  split; [exact Hvm|].
+  assert (Hnot : ∀ b s v0, v0 ≤ view_ver (f_db st) s →
+            (∀ e rid, e ∈ hist_of (f_hist st) s → v0 ≤ e.1 → e.2 !! rid ≠ Some b) → s ∉ shards_on view' b).
+  { intros b s v0 Hv0 Hsp. rewrite <- F4. change d' with (f_db st2). apply (spare_not_on st2 b s v0 HI2); [|exact Hsp].
+    cbn [st2 f_db]. specialize (Hvm s). lia. }
+  unfold free_at. cbn [st2 f_db]. rewrite F6. unfold sync_shard_info. split.
+  - intros s [(fh0 & Hfh0 & _ & Hnr) Hsp]. assert (fh0 = fh) as -> by congruence.
+    rewrite lookup_fmap. unfold host_update. cbn [rp_addr stamp r host_report rp_region rp_plog_incl rp_plog rp_shard_ids].
+    assert (Hids : s ∉ (list_to_set ((λ kv : N * N * lrep, kv.1.1) <$> filter (λ kv, lr_running kv.2 = true) (sorted_reps (fh_reps fh))) : gset N)).
+    { rewrite elem_of_list_to_set. intros Hin. apply elem_of_list_fmap in Hin as ([[s0 rid] lr] & Hs0 & Hin). cbn in Hs0. subst s0.
+      apply elem_of_list_filter in Hin as [Hrun Hin]. apply sorted_reps_elem in Hin. cbn in Hrun, Hin. rewrite (Hnr rid lr Hin) in Hrun. done. }
+    destruct (d_hosts (f_db st) !! a) as [h0|] eqn:Eh0; rewrite lookup_insert; cbn; (eexists; split; [done|]); cbn [h_addr h_tick h_shards].
+    + destruct (li_synced _ _ _ _ _ HI a h0 Eh0) as [Haddr _]. rewrite Haddr. split; [done|]. split; [done|].
+      intros Hin. apply elem_of_union in Hin as [Hin|Hin]; [done|]. by apply (Hnot a s (view_ver (f_db st) s)).
+    + split; [done|]. split; [done|]. intros Hin. apply elem_of_union in Hin as [Hin|Hin]; [done|]. by apply (Hnot a s (view_ver (f_db st) s)).
+  - intros b s t v0 Hne Hv0 Hsp (h & Hh & Haddr & Htk & Hns). rewrite lookup_fmap. unfold host_update. cbn [rp_addr stamp r host_report].
+    destruct (d_hosts (f_db st) !! a) as [h0|]; rewrite lookup_insert_ne by done; rewrite Hh; cbn; (eexists; split; [done|]); cbn [h_addr h_tick h_shards];
+      (split; [done|]); (split; [done|]); intros Hin; apply elem_of_union in Hin as [Hin|Hin]; try done; rewrite Haddr in Hin; by apply (Hnot b s v0).
+Qed.
+
+Lemma reports_free (plogs : N → bool) (l : list N) : ∀ st,
+  LoopInv st → NoDup l → (∀ a, a ∈ l → ∃ fh, f_hosts st !! a = Some fh ∧ fh_up fh = true) →
+  ∃ st', steps P st (l ≫= λ a, [ESnap a (plogs a); EDeliver a false]) = Some st' ∧ LoopInv st' ∧
+    f_hist st' = f_hist st ∧ d_tick (f_db st') = d_tick (f_db st) ∧
+    (∀ b, fh_reps <$> f_hosts st' !! b = fh_reps <$> f_hosts st !! b) ∧
+    (∀ b, fh_up <$> f_hosts st' !! b = fh_up <$> f_hosts st !! b) ∧
+    (∀ s, view_ver (f_db st) s ≤ view_ver (f_db st') s) ∧
+    (∀ a s, a ∈ l → spare st a s → free_at (f_db st') a s (d_tick (f_db st))) ∧
+    (∀ b s t v0, b ∉ l → v0 ≤ view_ver (f_db st) s →
+       (∀ e rid, e ∈ hist_of (f_hist st) s → v0 ≤ e.1 → e.2 !! rid ≠ Some b) →
+       free_at (f_db st) b s t → free_at (f_db st') b s t).
+Proof.
+  induction l as [|a l IH]; intros st HI Hnd Hl.
+  { exists st. cbn. split; [done|]. split; [done|]. repeat (split; [done|]). split; [|done]. intros a s Hin. by apply elem_of_nil in Hin. }
+  apply NoDup_cons in Hnd as [Hnotin Hnd]. destruct (Hl a) as (fh & Ha & Hup); [left|].
+  destruct (report_free st a fh (plogs a) HI Ha Hup) as (st1 & E1 & HI1 & Hhi1 & Ht1 & Hr1 & Hu1 & Hvm1 & Hfree1 & Hkeep1).
+  destruct (IH st1 HI1 Hnd) as (st2 & E2 & HI2 & Hhi2 & Ht2 & Hr2 & Hu2 & Hvm2 & Hfree2 & Hkeep2).
+  { intros b Hin. destruct (Hl b) as (fhb & Hb & Hupb); [by right|].
+    pose proof (Hr1 b) as Hx. pose proof (Hu1 b) as Hy. rewrite Hb in Hx, Hy. destruct (f_hosts st1 !! b) as [fhb1|]; [|done].
+    exists fhb1. split; [done|]. cbn in Hy. congruence. }
+  assert (Hspare1 : ∀ b s, spare st b s → spare st1 b s).
+  { intros b s [(fhb & Hb & Hupb & Hnr) Hsp]. split.
+    - pose proof (Hr1 b) as Hx. pose proof (Hu1 b) as Hy. rewrite Hb in Hx, Hy. destruct (f_hosts st1 !! b) as [fhb1|]; [|done].
+      cbn in Hx, Hy. injection Hx as Hx. injection Hy as Hy. exists fhb1. split; [done|]. split; [congruence|]. by rewrite Hx.
+    - rewrite Hhi1. intros e rid He Hv. apply Hsp; [done|]. specialize (Hvm1 s). lia. }
+  exists st2. split. { rewrite bind_cons, steps_app, E1. exact E2. }
+  split; [done|]. split; [congruence|]. split; [congruence|].
+  split. { intros b. by rewrite Hr2, Hr1. }
+  split. { intros b. by rewrite Hu2, Hu1. }
+  split. { intros s. specialize (Hvm1 s). specialize (Hvm2 s). lia. }
+  split.
+  - intros b s Hin Hsp. apply elem_of_cons in Hin as [->|Hin].
+    + apply (Hkeep2 a s _ (view_ver (f_db st) s)); [done|apply Hvm1|rewrite Hhi1; by destruct Hsp|]. by apply Hfree1.
+    + rewrite <- Ht1. apply Hfree2; [done|]. by apply Hspare1.
+  - intros b s t v0 Hnin Hv0 Hsp Hfr. apply not_elem_of_cons in Hnin as [Hne Hnin].
+    apply (Hkeep2 b s t v0); [done|specialize (Hvm1 s); lia|by rewrite Hhi1|]. by apply (Hkeep1 b s t v0).
+Qed.
+
+(* the rest of the round leaves Drummer's records alone; time advances by nticks steps *)
+Lemma li_ticks n : ∀ st, LoopInv st →
+  ∃ st', steps P st (replicate n ETick) = Some st' ∧ LoopInv st' ∧
+    f_db st' = set_tick (f_db st) (d_tick (f_db st) + N.of_nat n * p_step P) ∧ f_hist st' = f_hist st.
+Proof.
+  induction n as [|n IH]; intros st HI; cbn [replicate steps].
+  - exists st. split; [done|]. split; [done|]. split; [|done]. destruct st as [d ? ? ?]. cbn. destruct d. unfold set_tick. cbn. f_equal. lia.
+  - pose proof (step_tick_no_panic P st HI) as Hnp. destruct (fstep P st ETick) as [st1| |] eqn:E; [| |done].
+    2:{ cbn [fstep] in E. by destruct (db_step P (f_db st) CTick). }
+    pose proof (step_tick P st st1 HI E) as HI1.
+    cbn [fstep] in E. unfold db_step in E. rewrite (li_failed _ _ _ _ _ HI) in E. unfold apply_tick in E.
+    cbn [d_deadline set_tick] in E. rewrite (li_deadline _ _ _ _ _ HI) in E. cbn [N.ltb andb] in E. injection E as <-.
+    destruct (IH _ HI1) as (st2 & E2 & HI2 & Hd2 & Hh2). exists st2. split; [done|]. split; [done|]. split; [|by rewrite Hh2].
+    rewrite Hd2. unfold set_db, set_tick. cbn [f_db d_tick d_deadline d_failed d_shards d_kv d_view d_kill d_hosts d_info d_requests d_outgoing].
+    f_equal. rewrite Nat2N.inj_succ, N.mul_succ_l. lia.
+Qed.
+
+(* the cause of errNotEnoughNodeHost: a shard of the view in the ADD branch, one of whose failed members has no
+   live NodeHost that is not known to host the shard *)
+Lemma error_cause C : allowed P C OError = true →
+  ∃ c n, c ∈ entries C ∧ repair_action P C c = AAdd ∧ n ∈ sr_failed P C c ∧
+         ∀ h, h ∈ host_list C → host_live P C h = true → r_shard n ∈ h_shards h.
+Proof.
+  intros Hal. apply sched_error_inv in Hal as (c & Hc & He). unfold err_entry in He.
+  destruct (repair_action P C c) eqn:Ea; try done. apply existsb_exists in He as (n & Hn%elem_of_list_In & Hcand).
+  apply bool_decide_eq_true in Hcand. exists c, n. split; [done|]. split; [done|]. split; [done|].
+  intros h Hh Hlive. destruct (decide (r_shard n ∈ h_shards h)) as [|Hnin]; [done|]. exfalso.
+  assert (Hany : h ∈ cand_any P C (r_shard n)).
+  { unfold cand_any. apply elem_of_list_filter. split; [|done]. split; [done|]. unfold not_hosting. by apply bool_decide_eq_true. }
+  unfold candidates in Hcand. destruct (cand_region P C (r_shard n) (region_of C (r_addr n))) as [|h0 l0]; [|done].
+  rewrite Hcand in Hany. by apply elem_of_nil in Hany.
+Qed.
+
+(* a healthy round from ANY state of the invariant with all hosts up, less than ttl long: if every shard has a
+   spare NodeHost, the scheduler cannot answer errNotEnoughNodeHost *)
+Theorem round_no_error st st' plogs nticks o :
+  LoopInv st → (∀ a fh, f_hosts st !! a = Some fh → fh_up fh = true) →
+  (∀ s, is_Some (f_hist st !! s) → ∃ a, spare st a s) →
+  N.of_nat nticks * p_step P < p_ttl P →
+  healthy_round P plogs nticks o st = Some st' → o ≠ OError.
+Proof.
+  intros HI Hup Hspare Httl Hr ->. unfold healthy_round in Hr. set (t := d_tick (f_db st)).
+  destruct (reports_free plogs (host_addrs st) st HI (host_addrs_nodup st)) as (st1 & E1 & HI1 & Hhi1 & Ht1 & _ & _ & _ & Hfree1 & _).
+  { intros a Hin. apply host_addrs_elem in Hin as [fh Ha]. exists fh. split; [done|]. by apply (Hup a). }
+  rewrite E1 in Hr.
+  destruct (steps_keep (λ x, f_db x = f_db st1) ((λ a, EExec a true) <$> host_addrs st1)) with (st := st1) as (st2 & E2 & HI2 & Hd2); [| |done|done|].
+  { intros x ev x' Hev _ Hx Hstep. apply elem_of_list_fmap in Hev as (a & -> & _). cbn [fstep] in Hstep.
+    destruct (f_hosts x !! a) as [fh|]; [|done]. destruct (fh_up fh); [|done]. destruct (exec_all _ _ _ _); [|done]. by injection Hstep as <-. }
+  { apply forallb_forall. intros ev Hev. apply elem_of_list_In, elem_of_list_fmap in Hev as (a & -> & _). done. }
+  rewrite E2 in Hr.
+  destruct (steps_keep (λ x, f_db x = f_db st1) (catch_up_events st2)) with (st := st2) as (st3 & E3 & HI3 & Hd3); [| |done|done|].
+  { intros x ev x' Hev _ Hx Hstep. apply catch_up_members in Hev as (a & s & r & v & -> & _). cbn [fstep] in Hstep.
+    destruct (f_hosts x !! a) as [fh|]; [|done]. destruct (fh_reps fh !! (s, r)); [|done]. destruct (_ && _ && _ && _); [|done]. by injection Hstep as <-. }
+  { apply forallb_forall. intros ev Hev. apply elem_of_list_In, catch_up_members in Hev as (a & s & r & v & -> & _). done. }
+  rewrite E3 in Hr.
+  destruct (li_ticks nticks st3 HI3) as (st4 & E4 & HI4 & Hd4 & _). rewrite E4 in Hr.
+  destruct (fstep P st4 (ESchedule OError)) as [st5| |] eqn:E5; try done. clear Hr.
+  cbn [fstep] in E5. destruct (allowed P (ctx_of_db (f_db st4)) OError) eqn:Hal; [|done].
+  destruct (error_cause _ Hal) as (c & n & Hc & _ & Hn & Hnone).
+  (* the shard, its spare host *)
+  destruct (view_entry_facts (f_db st4) (f_hist st4) c (li_view _ _ _ _ _ HI4) Hc) as (_ & _ & Hvc & _ & Hids).
+  assert (Hsh : r_shard n = s_id c).
+  { apply elem_sr_failed in Hn as [Hn _]. apply mvals_elem in Hn as [rid Hn]. by destruct (Hids rid n Hn). }
+  assert (Hvc1 : d_view (f_db st1) !! s_id c = Some c) by (rewrite Hd4, Hd3 in Hvc; exact Hvc).
+  destruct (li_view _ _ _ _ _ HI1 _ _ Hvc1) as (_ & HH & _). unfold Hf, hist_of in HH.
+  destruct (f_hist st1 !! s_id c) as [h|] eqn:Eh1; [|done]. rewrite Hhi1 in Eh1.
+  destruct (Hspare (s_id c)) as [a Hsp]; [by eexists|].
+  destruct (Hfree1 a (s_id c)) as (hs & Hhs & Haddr & Htk & Hns); [|done|].
+  { apply host_addrs_elem. destruct Hsp as [(fh & Ha & _) _]. by eexists. }
+  apply Hns. rewrite <- Hsh. apply Hnone.
+  - unfold host_list, ctx_of_db. cbn [c_hosts]. apply mvals_elem. exists a. rewrite Hd4, Hd3. exact Hhs.
+  - apply host_live_iff. unfold ctx_of_db, now. cbn [c_tick]. rewrite Hd4, Hd3. cbn [set_tick d_tick]. rewrite Htk, Ht1. fold t. lia.
+Qed.
+End NoError.
+
+Lemma spareb_sound st a s : spareb st a s = true → spare st a s.
+Proof.
+  unfold spareb. intros H. apply andb_true_iff in H as [H1 H2]. split.
+  - destruct (f_hosts st !! a) as [fh|]; [|done]. apply andb_true_iff in H1 as [Hup Hnr]. exists fh. split; [done|]. split; [done|].
+    intros rid lr Hk. pose proof (forallb_map_to_list _ _ Hnr (s, rid) lr Hk) as Hx. cbn [fst snd] in Hx.
+    rewrite N.eqb_refl in Hx. cbn in Hx. by apply negb_true_iff in Hx.
+  - intros e rid He Hv Hm. rewrite forallb_forall in H2. apply elem_of_list_In in He. specialize (H2 e He).
+    apply orb_true_iff in H2 as [H2|H2]; [apply N.ltb_lt in H2; lia|].
+    pose proof (forallb_map_to_list _ _ H2 rid a Hm) as Hx. cbn [snd] in Hx. rewrite N.eqb_refl in Hx. done.
+Qed.
